@@ -14,7 +14,7 @@ From Cell2V Require Import Common.Tac Common.ListX Common.AList C14.Model C14.Sp
 Definition ev_key (x : ev) : option Z :=
   match x with
   | ECreate k _ _ _ _ | ECancel k | EQueued k | ECb k _ _ | ERet k _ | EArm k _ => Some k
-  | EStop => None
+  | EStop | EStart | EClose | ELoopEnd => None
   end.
 Definition quiet (k : Z) (e : list ev) : Prop := forall x, In x e -> ev_key x <> Some k.
 
@@ -404,6 +404,7 @@ Lemma inv_begin s tr k :
 Proof.
   intro I. unfold begin_at.
   destruct (cur s) as [c|] eqn:Cu; [cbn [fst snd]; rewrite app_nil_r; exact I|].
+  destruct (drains (life_of s)) eqn:Dr; cbn [negb]; [|cbn [fst snd]; rewrite app_nil_r; exact I].
   destruct (zmem k (queue s)) eqn:M; [|cbn [fst snd]; rewrite app_nil_r; exact I].
   destruct (queued_timer _ _ _ I M) as (t & E & Q & Z1). rewrite E.
   destruct (inv_some _ _ _ _ I E) as [T R].
@@ -633,6 +634,70 @@ Proof.
     + rewrite Hc. tauto.
 Qed.
 
+(* events that concern no timer leave every per-timer fact alone *)
+Lemma inv_quiet_events s s' tr e :
+  Inv s tr -> (forall k, quiet k e) ->
+  next s' = next s -> objs s' = objs s -> queue s' = queue s ->
+  cur_key s' = cur_key s -> clock s <= clock s' -> (running s' = true -> running s = true) ->
+  Inv s' (tr ++ e).
+Proof.
+  intros I Q Hn Ho Hq Hc Hk Hr. split; [destruct I; lia|]. intro k. rewrite Ho.
+  destruct (aget k (objs s)) as [t|] eqn:E.
+  - destruct (inv_some _ _ _ _ I E) as [T R]. split; [|lia].
+    apply TI_frame with (s := s); auto.
+    + rewrite Hq. reflexivity.
+    + rewrite Hc. tauto.
+  - apply Absent_frame with (s := s); auto.
+    + eapply inv_none; eauto.
+    + rewrite Hq. reflexivity.
+    + rewrite Hc. tauto.
+Qed.
+
+Lemma inv_mgr_stop s tr : Inv s tr -> Inv (fst (mgr_stop s)) (tr ++ snd (mgr_stop s)).
+Proof.
+  intro I. unfold mgr_stop. cbn [fst snd].
+  apply inv_quiet_events with (s := s);
+    [exact I | intro k; quiet_tac | reflexivity | reflexivity | reflexivity | reflexivity | cbn; lia | cbn; discriminate].
+Qed.
+
+Lemma inv_svc_close s tr : Inv s tr -> Inv (fst (svc_close s)) (tr ++ snd (svc_close s)).
+Proof.
+  intro I. unfold svc_close. destruct (life_of s); cbn [fst snd]; try (rewrite app_nil_r; exact I).
+  apply inv_quiet_events with (s := s);
+    [exact I | intro k; quiet_tac | reflexivity | reflexivity | reflexivity | reflexivity | cbn; lia | cbn; tauto].
+Qed.
+
+Lemma inv_svc_start s tr : Inv s tr -> Inv (fst (svc_start s)) (tr ++ snd (svc_start s)).
+Proof.
+  intro I. unfold svc_start. destruct (life_of s); cbn [fst snd]; try (rewrite app_nil_r; exact I).
+  apply inv_quiet_events with (s := s);
+    [exact I | intro k; quiet_tac | reflexivity | reflexivity | reflexivity | reflexivity | cbn; lia | cbn; tauto].
+Qed.
+
+Lemma inv_loop_end s tr : Inv s tr -> Inv (fst (loop_end s)) (tr ++ snd (loop_end s)).
+Proof.
+  intro I. unfold loop_end. destruct (life_of s); destruct (cur s) eqn:Cu; cbn [fst snd];
+    try (rewrite app_nil_r; exact I).
+  apply inv_quiet_events with (s := s);
+    [exact I | intro k; quiet_tac | reflexivity | reflexivity | reflexivity | reflexivity | cbn; lia | cbn; tauto].
+Qed.
+
+Lemma svc_stop_eq s :
+  svc_stop s = (fst (svc_close (fst (mgr_stop s))), snd (mgr_stop s) ++ snd (svc_close (fst (mgr_stop s)))).
+Proof. unfold svc_stop. destruct (mgr_stop s) as [s1 e1]. cbn [fst snd]. destruct (svc_close s1); reflexivity. Qed.
+
+Lemma svc_stop_events s : snd (svc_stop s) = [EStop] \/ snd (svc_stop s) = [EStop; EClose].
+Proof.
+  rewrite svc_stop_eq. unfold mgr_stop, svc_close. cbn [fst snd with_running life_of].
+  destruct (life_of s); cbn [snd app]; auto.
+Qed.
+
+Lemma inv_svc_stop s tr : Inv s tr -> Inv (fst (svc_stop s)) (tr ++ snd (svc_stop s)).
+Proof.
+  intro I. rewrite svc_stop_eq. cbn [fst snd]. rewrite app_assoc.
+  apply inv_svc_close. apply inv_mgr_stop. exact I.
+Qed.
+
 Lemma inv_cb_step s tr :
   Inv s tr -> Inv (fst (cb_step s)) (tr ++ snd (cb_step s)).
 Proof.
@@ -641,36 +706,33 @@ Proof.
   assert (CK : cur_key s = Some k) by (unfold cur_key; rewrite Cu; reflexivity).
   assert (W : forall r, Inv (with_cur s (Some (k, r))) tr).
   { intro r. apply inv_ext with (s := s); auto; try reflexivity; try lia. }
-  destruct acts as [|[|j|d rep a p|] r].
+  destruct acts as [|[|j|d rep a p| |] r].
   - apply inv_ret; assumption.
   - apply inv_cancel. apply W.
   - apply inv_cancel. apply W.
   - apply inv_create. apply W.
   - apply inv_ret; assumption.
+  - apply inv_svc_stop. apply W.
 Qed.
 
 Lemma inv_step s tr x : Inv s tr -> Inv (fst (step s x)) (tr ++ snd (step s x)).
 Proof.
-  intro I. destruct x as [d rep a p|k| |k| | |dt|k|k| ]; cbn [step].
+  intro I. destruct x as [d rep a p|k| |k| | |dt|k|k| | | | ]; cbn [step].
   - apply inv_create. exact I.
   - apply inv_cancel. exact I.
-  - cbn [fst snd]. apply inv_frame with (s := s) (k0 := -1);
-      [exact I | cbn; lia | | | | | cbn; lia | cbn; congruence | ].
-    + intros; reflexivity.
-    + intros j N. quiet_tac.
-    + intros; reflexivity.
-    + intros; unfold cur_key; cbn; tauto.
-    + cbn [objs]. destruct (aget (-1) (objs s)) as [t|] eqn:E.
-      * destruct (inv_some _ _ _ _ I E) as [_ R]. lia.
-      * apply Absent_frame with (s := s); [eapply inv_none; eauto | quiet_tac | reflexivity | auto].
+  - apply inv_mgr_stop. exact I.
   - apply inv_begin. exact I.
   - destruct (queue s) as [|k q]; [cbn [fst snd]; rewrite app_nil_r; exact I | apply inv_begin; exact I].
   - apply inv_cb_step. exact I.
   - cbn [fst snd]. rewrite app_nil_r. apply inv_ext with (s := s); auto; cbn; lia.
   - apply inv_fire_check. exact I.
   - apply inv_fire_send. exact I.
-  - unfold recv. destruct (recvd s <? length (queue s))%nat; cbn [fst snd]; rewrite app_nil_r; [|exact I].
+  - unfold recv. destruct (drains (life_of s) && (recvd s <? length (queue s))%nat);
+      cbn [fst snd]; rewrite app_nil_r; [|exact I].
     apply inv_ext with (s := s); auto; cbn; lia.
+  - apply inv_svc_start. exact I.
+  - apply inv_svc_close. exact I.
+  - apply inv_loop_end. exact I.
 Qed.
 
 Lemma run_from_app xs : forall s ys,
@@ -712,11 +774,16 @@ Inductive shape (s : st) : list ev -> Prop :=
 | sh_rearm k p t : cur_key s = Some k -> aget k (objs s) = Some t ->
                    t_canceled t = false -> (0 <? t_period t) = true ->
                    shape s [ERet k p; EArm k (clock s)]
-| sh_ret_none k p : cur_key s = Some k -> aget k (objs s) = None -> shape s [ERet k p].
+| sh_ret_none k p : cur_key s = Some k -> aget k (objs s) = None -> shape s [ERet k p]
+| sh_start : shape s [EStart]
+| sh_close : shape s [EClose]
+| sh_loopend : shape s [ELoopEnd]
+| sh_stopclose : shape s [EStop; EClose].
 
 Lemma shape_begin s k : shape s (snd (begin_at s k)).
 Proof.
   unfold begin_at. destruct (cur s) eqn:Cu; [constructor|].
+  destruct (drains (life_of s)); cbn [negb]; [|constructor].
   destruct (zmem k (queue s)) eqn:M; [|constructor].
   destruct (aget k (objs s)) as [t|] eqn:E; [|constructor].
   destruct (t_canceled t) eqn:Ca; cbn [snd]; [constructor | apply sh_cb; assumption].
@@ -731,7 +798,7 @@ Qed.
 
 Lemma shape_step s x : shape s (snd (step s x)).
 Proof.
-  destruct x as [d rep a p|k| |k| | |dt|k|k| ]; cbn [step].
+  destruct x as [d rep a p|k| |k| | |dt|k|k| | | | ]; cbn [step].
   - constructor.
   - constructor.
   - constructor.
@@ -739,14 +806,19 @@ Proof.
   - destruct (queue s); [constructor | apply shape_begin].
   - unfold cb_step. destruct (cur s) as [[k acts]|] eqn:Cu; [|constructor].
     assert (CK : cur_key s = Some k) by (unfold cur_key; rewrite Cu; reflexivity).
-    destruct acts as [|[|j|d rep a p|] r]; try constructor; apply shape_ret; exact CK.
+    destruct acts as [|[|j|d rep a p| |] r]; try constructor; try (apply shape_ret; exact CK).
+    unfold svc_stop, mgr_stop, svc_close. cbn [with_running with_cur life_of].
+    destruct (life_of s); cbn [snd app]; constructor.
   - constructor.
   - unfold fire_check. destruct (aget k (objs s)) as [t|]; [|constructor].
     destruct (t_tok t); try constructor. destruct (_ <=? _); [|constructor].
     destruct (t_canceled t); [constructor|]. destruct (running s); constructor.
   - unfold fire_send. destruct (aget k (objs s)) as [t|]; [|constructor].
     destruct (t_tok t); try constructor. destruct (_ <? _); constructor.
-  - unfold recv. destruct (_ <? _)%nat; constructor.
+  - unfold recv. destruct (_ && _); constructor.
+  - unfold svc_start. destruct (life_of s); constructor.
+  - unfold svc_close. destruct (life_of s); constructor.
+  - unfold loop_end. destruct (life_of s); destruct (cur s); constructor.
 Qed.
 
 (* ================= the trace properties are preserved by every step ================= *)
@@ -779,7 +851,7 @@ Lemma shape_silent s tr e k t :
   t_canceled t = true \/ t_tok t = Dead -> no_cb k e /\ no_arm k e.
 Proof.
   intros I Sh E D. destruct (inv_some _ _ _ _ I E) as [T _].
-  destruct Sh as [|k' c d rep a|k'| |k'|k' t' Cu M E' Ca|k' p t' CK E' X|k' p t' CK E' Ca Pe|k' p CK E'];
+  destruct Sh as [|k' c d rep a|k'| |k'|k' t' Cu M E' Ca|k' p t' CK E' X|k' p t' CK E' Ca Pe|k' p CK E'| | | | ];
     try (split; [intros c0 a0 H | intros c0 H]; cbn in H; intuition discriminate).
   - split; [|intros c0 H; cbn in H; intuition discriminate].
     intros c0 a0 [H|[]]. inv H. rewrite E in E'. inv E'.
@@ -808,10 +880,11 @@ Proof.
     + symmetry in E1. destruct Sh; try (destruct e1 as [|? [|? ?]]; cbn in E1; inv E1; fail).
       * apply split1 in E1. destruct E1 as (_ & _ & ->). split; [intros c a [] | intros c []].
       * apply split2 in E1. destruct E1 as [(_ & X & _)|(_ & X & _)]; discriminate.
+      * apply split2 in E1. destruct E1 as [(_ & X & _)|(_ & X & _)]; discriminate.
   - (* never early, with the args of creation *)
     intros k c a t1 t2 E. apply app_split in E. destruct E as [[m [E1 E2]]|[e1 [E1 E2]]].
     + eapply G2; eauto.
-    + symmetry in E1. destruct Sh as [|k' c' d rep a'|k'| |k'|k' t' Cu M E' Ca|k' p t' CK E' X|k' p t' CK E' Ca Pe|k' p CK E'];
+    + symmetry in E1. destruct Sh as [|k' c' d rep a'|k'| |k'|k' t' Cu M E' Ca|k' p t' CK E' X|k' p t' CK E' Ca Pe|k' p CK E'| | | | ];
         try (destruct e1 as [|? [|? ?]]; cbn in E1; inv E1; fail).
       * apply split1 in E1. destruct E1 as (-> & X & _). inv X. rewrite app_nil_r.
         destruct (queued_timer _ _ _ I M) as (t2' & E2 & Q & _). rewrite E' in E2. inv E2.
@@ -820,12 +893,13 @@ Proof.
         pose proof (ti_timing _ _ _ _ T) as Tm. unfold timing in Tm. rewrite Q in Tm.
         destruct Tm as (t0 & A & B). exists c0, (t_dur t2'), rp, t0. auto.
       * apply split2 in E1. destruct E1 as [(_ & X & _)|(_ & X & _)]; discriminate.
+      * apply split2 in E1. destruct E1 as [(_ & X & _)|(_ & X & _)]; discriminate.
   - (* re-arm after every completed callback *)
     intros k p t1 t2 clk d rep a E Cre Rep NCan. apply app_split in E.
     destruct E as [[m [E1 E2]]|[e1 [E1 E2]]].
     + destruct (G3 _ _ _ _ _ _ _ _ E1 Cre Rep NCan) as (c & t3 & ->). subst t2.
       exists c, (t3 ++ e). reflexivity.
-    + symmetry in E1. destruct Sh as [|k' c' d' rep' a'|k'| |k'|k' t' Cu M E' Ca|k' p' t' CK E' X|k' p' t' CK E' Ca Pe|k' p' CK E'];
+    + symmetry in E1. destruct Sh as [|k' c' d' rep' a'|k'| |k'|k' t' Cu M E' Ca|k' p' t' CK E' X|k' p' t' CK E' Ca Pe|k' p' CK E'| | | | ];
         try (destruct e1 as [|? [|? ?]]; cbn in E1; inv E1; fail).
       * exfalso. apply split1 in E1. destruct E1 as (-> & X1 & _). inv X1. rewrite app_nil_r in *.
         destruct (inv_some _ _ _ _ I E') as [T _].
@@ -836,6 +910,7 @@ Proof.
       * apply split2 in E1. destruct E1 as [(-> & X1 & ->)|(_ & X1 & _)]; [|discriminate].
         inv X1. eauto.
       * exfalso. destruct (in_cb_timer _ _ _ I CK) as (tq & Eq & _). congruence.
+      * apply split2 in E1. destruct E1 as [(_ & X & _)|(_ & X & _)]; discriminate.
 Qed.
 
 Lemma good_run_from xs : forall s tr,
@@ -883,33 +958,39 @@ Qed.
 (* Mgr.running is still true unless Stop was called *)
 Lemma running_begin s k : running (fst (begin_at s k)) = running s.
 Proof.
-  unfold begin_at. destruct (cur s); [reflexivity|]. destruct (zmem k (queue s)); [|reflexivity].
+  unfold begin_at. destruct (cur s); [reflexivity|].
+  destruct (drains (life_of s)); cbn [negb]; [|reflexivity]. destruct (zmem k (queue s)); [|reflexivity].
   destruct (aget k (objs s)) as [t|]; [destruct (t_canceled t)|]; reflexivity.
 Qed.
 
 Lemma running_step s x : running (fst (step s x)) = running s \/ In EStop (snd (step s x)).
 Proof.
-  destruct x as [d rep a p|k| |k| | |dt|k|k| ]; cbn [step].
+  destruct x as [d rep a p|k| |k| | |dt|k|k| | | | ]; cbn [step].
   - left. reflexivity.
   - left. unfold cancel. cbn [fst]. destruct (aget k (objs s)) as [t|]; [destruct (t_reg t)|]; reflexivity.
   - right. left. reflexivity.
   - left. apply running_begin.
   - left. destruct (queue s) as [|k q]; [reflexivity | apply running_begin].
-  - left. unfold cb_step. destruct (cur s) as [[k acts]|]; [|reflexivity].
+  - unfold cb_step. destruct (cur s) as [[k acts]|]; [|left; reflexivity].
     assert (R : forall p, running (fst (ret s k p)) = running s).
     { intro p. unfold ret. destruct (aget k (objs s)) as [t|]; [|reflexivity].
       destruct (t_canceled t); [reflexivity|]. destruct (0 <? t_period t); reflexivity. }
-    destruct acts as [|[|j|d rep a p|] r]; auto; unfold cancel; cbn [fst with_cur objs];
-      try reflexivity.
-    + destruct (aget k (objs s)) as [t|]; [destruct (t_reg t)|]; reflexivity.
-    + destruct (aget j (objs s)) as [t|]; [destruct (t_reg t)|]; reflexivity.
+    destruct acts as [|[|j|d rep a p| |] r]; auto.
+    + left. unfold cancel. cbn [fst with_cur objs].
+      destruct (aget k (objs s)) as [t|]; [destruct (t_reg t)|]; reflexivity.
+    + left. unfold cancel. cbn [fst with_cur objs].
+      destruct (aget j (objs s)) as [t|]; [destruct (t_reg t)|]; reflexivity.
+    + right. rewrite svc_stop_eq. cbn [snd mgr_stop]. left. reflexivity.
   - left. reflexivity.
   - left. unfold fire_check. destruct (aget k (objs s)) as [t|]; [|reflexivity].
     destruct (t_tok t); try reflexivity. destruct (_ <=? _); [|reflexivity].
     destruct (t_canceled t); [reflexivity|]. destruct (running s) eqn:Rn; cbn; exact Rn.
   - left. unfold fire_send. destruct (aget k (objs s)) as [t|]; [|reflexivity].
     destruct (t_tok t); try reflexivity. destruct (_ <? _); reflexivity.
-  - left. unfold recv. destruct (_ <? _)%nat; reflexivity.
+  - left. unfold recv. destruct (_ && _); reflexivity.
+  - left. unfold svc_start. destruct (life_of s); reflexivity.
+  - left. unfold svc_close. destruct (life_of s); reflexivity.
+  - left. unfold loop_end. destruct (life_of s); destruct (cur s); reflexivity.
 Qed.
 
 Lemma running_run_from xs : forall s,
@@ -951,11 +1032,12 @@ Proof.
 Qed.
 
 Lemma begin_ok s k t :
-  cur s = None -> zmem k (queue s) = true -> aget k (objs s) = Some t -> t_canceled t = false ->
+  cur s = None -> drains (life_of s) = true ->
+  zmem k (queue s) = true -> aget k (objs s) = Some t -> t_canceled t = false ->
   begin_at s k =
     (with_cur (put (dequeue s k) k (set_tok InCb t)) (Some (k, t_prog t)),
      [ECb k (clock s) (t_args t)]).
-Proof. intros Cu M E Ca. unfold begin_at. rewrite Cu, M, E, Ca. reflexivity. Qed.
+Proof. intros Cu Dr M E Ca. unfold begin_at. rewrite Cu, Dr, M, E, Ca. reflexivity. Qed.
 
 Lemma remove_first_snoc k q : zcount k q = 0%nat -> remove_first k (q ++ [k]) = q.
 Proof.
@@ -982,19 +1064,20 @@ Qed.
 (* time passes, the runtime fires the armed timer k, the owner receives the expiry and calls
    Do: the callback is invoked, at a clock not before the deadline, with the creation args *)
 Lemma fire_and_begin s tr k t dl dt :
-  Inv s tr -> cur s = None -> running s = true -> Z.of_nat (length (queue s)) < qcap ->
+  Inv s tr -> cur s = None -> running s = true -> drains (life_of s) = true ->
+  Z.of_nat (length (queue s)) < qcap ->
   aget k (objs s) = Some t -> t_canceled t = false -> t_tok t = Pending dl ->
   dl <= clock s + Z.max 0 dt ->
   run_from s [SAdvance dt; SFireCheck k; SFireSend k; SBegin k] =
     (mkS (clock s + Z.max 0 dt) (running s) (next s) (aset k (set_tok InCb t) (objs s)) (queue s)
-         (Some (k, t_prog t)) (pred (recvd s)),
+         (Some (k, t_prog t)) (pred (recvd s)) (life_of s),
      [EQueued k; ECb k (clock s + Z.max 0 dt) (t_args t)]).
 Proof.
-  intros I Cu Rn L E Ca Q D.
+  intros I Cu Rn Dr L E Ca Q D.
   destruct (inv_some _ _ _ _ I E) as [T _]. pose proof (ti_queue _ _ _ _ T) as Zq.
   rewrite Q in Zq. cbn [qcount] in Zq.
   cbn [run_from step].
-  set (s1 := mkS (clock s + Z.max 0 dt) (running s) (next s) (objs s) (queue s) (cur s) (recvd s)).
+  set (s1 := mkS (clock s + Z.max 0 dt) (running s) (next s) (objs s) (queue s) (cur s) (recvd s) (life_of s)).
   rewrite (fire_check_ok s1 k t dl) by (cbn; auto).
   set (s2 := put s1 k (set_tok Firing t)).
   rewrite (fire_send_ok s2 k (set_tok Firing t))
@@ -1002,11 +1085,12 @@ Proof.
   set (s3 := put (with_queue s2 (queue s2 ++ [k])) k (set_tok Queued (set_tok Firing t))).
   rewrite (begin_ok s3 k (set_tok Queued (set_tok Firing t))).
   2: exact Cu.
+  2: exact Dr.
   2: { cbn [s3 s2 s1 put with_objs with_queue queue]. apply zmem_snoc. }
   2: { cbn [s3 put with_objs objs]. apply aget_aset_same. }
   2: exact Ca.
   subst s3 s2 s1. unfold with_cur, put, with_queue, with_objs, dequeue.
-  cbn [objs queue cur clock running next recvd set_tok
+  cbn [objs queue cur clock running next recvd life_of set_tok
        t_dur t_period t_args t_prog t_canceled t_reg t_tok].
   rewrite !aset_aset, (remove_first_snoc _ _ Zq). reflexivity.
 Qed.
@@ -1027,62 +1111,51 @@ Proof.
   cbn [step]. unfold cb_step. rewrite Cu. rewrite (IH s Cu). reflexivity.
 Qed.
 
+Definition cb_done (s s' : st) (e : list ev) (k : Z) (t : timer) : Prop :=
+  cur s' = None /\
+  aget k (objs s') = Some (set_tok (Pending (clock s + t_period t)) t) /\
+  running s' = running s /\ queue s' = queue s /\ clock s' = clock s /\ life_of s' = life_of s /\
+  count_cb k e = 0.
+
 Lemma cb_loop k n : forall s tr acts t,
   Inv s tr -> cur s = Some (k, acts) -> (length acts <= n)%nat -> keeps k acts ->
   aget k (objs s) = Some t -> t_canceled t = false -> 0 < t_period t ->
-  cur (fst (run_from s (repeat SCbStep (S n)))) = None /\
-  aget k (objs (fst (run_from s (repeat SCbStep (S n))))) =
-    Some (set_tok (Pending (clock s + t_period t)) t) /\
-  running (fst (run_from s (repeat SCbStep (S n)))) = running s /\
-  queue (fst (run_from s (repeat SCbStep (S n)))) = queue s /\
-  clock (fst (run_from s (repeat SCbStep (S n)))) = clock s /\
-  count_cb k (snd (run_from s (repeat SCbStep (S n)))) = 0.
+  cb_done s (fst (run_from s (repeat SCbStep (S n)))) (snd (run_from s (repeat SCbStep (S n)))) k t.
 Proof.
-  induction n as [|n IH]; intros s tr acts t I Cu Ln Kp E Ca P.
+  induction n as [|n IH]; intros s tr acts t I Cu Ln Kp E Ca P; unfold cb_done.
   - destruct acts; [|cbn in Ln; lia].
     cbn [repeat run_from step]. unfold cb_step. rewrite Cu, (ret_rearm _ _ _ _ E Ca P).
-    cbn [fst snd put with_cur with_objs objs cur running queue clock app count_cb].
+    cbn [fst snd put with_cur with_objs objs cur running queue clock life_of app count_cb].
     rewrite aget_aset_same. auto 10.
   - assert (Fin : forall pan,
       cb_step s = ret s k pan ->
-      cur (fst (run_from s (repeat SCbStep (S (S n))))) = None /\
-      aget k (objs (fst (run_from s (repeat SCbStep (S (S n)))))) =
-        Some (set_tok (Pending (clock s + t_period t)) t) /\
-      running (fst (run_from s (repeat SCbStep (S (S n))))) = running s /\
-      queue (fst (run_from s (repeat SCbStep (S (S n))))) = queue s /\
-      clock (fst (run_from s (repeat SCbStep (S (S n))))) = clock s /\
-      count_cb k (snd (run_from s (repeat SCbStep (S (S n))))) = 0).
+      cb_done s (fst (run_from s (repeat SCbStep (S (S n))))) (snd (run_from s (repeat SCbStep (S (S n))))) k t).
     { intros pan H. change (repeat SCbStep (S (S n))) with (SCbStep :: repeat SCbStep (S n)).
       cbn [run_from step]. rewrite H, (ret_rearm _ _ _ _ E Ca P).
-      rewrite idle_cb by reflexivity.
-      cbn [fst snd put with_cur with_objs objs cur running queue clock app count_cb].
+      rewrite idle_cb by reflexivity. unfold cb_done.
+      cbn [fst snd put with_cur with_objs objs cur running queue clock life_of app count_cb].
       rewrite aget_aset_same. auto 10. }
     assert (Go : forall s1 e1 r,
       cb_step s = (s1, e1) -> cur s1 = Some (k, r) -> (length r <= n)%nat -> keeps k r ->
       aget k (objs s1) = Some t -> running s1 = running s -> queue s1 = queue s ->
-      clock s1 = clock s -> count_cb k e1 = 0 ->
-      cur (fst (run_from s (repeat SCbStep (S (S n))))) = None /\
-      aget k (objs (fst (run_from s (repeat SCbStep (S (S n)))))) =
-        Some (set_tok (Pending (clock s + t_period t)) t) /\
-      running (fst (run_from s (repeat SCbStep (S (S n))))) = running s /\
-      queue (fst (run_from s (repeat SCbStep (S (S n))))) = queue s /\
-      clock (fst (run_from s (repeat SCbStep (S (S n))))) = clock s /\
-      count_cb k (snd (run_from s (repeat SCbStep (S (S n))))) = 0).
-    { intros s1 e1 r H Cu1 Lr Kr E1 Rn1 Q1 C1 Z1.
+      clock s1 = clock s -> life_of s1 = life_of s -> count_cb k e1 = 0 ->
+      cb_done s (fst (run_from s (repeat SCbStep (S (S n))))) (snd (run_from s (repeat SCbStep (S (S n))))) k t).
+    { intros s1 e1 r H Cu1 Lr Kr E1 Rn1 Q1 C1 L1 Z1.
       change (repeat SCbStep (S (S n))) with (SCbStep :: repeat SCbStep (S n)).
       cbn [run_from step]. rewrite H.
       pose proof (inv_cb_step s tr I) as I1. rewrite H in I1. cbn [fst snd] in I1.
-      destruct (IH s1 _ r t I1 Cu1 Lr Kr E1 Ca P) as (A1 & A2 & A3 & A4 & A5 & A6).
+      destruct (IH s1 _ r t I1 Cu1 Lr Kr E1 Ca P) as (A1 & A2 & A3 & A4 & A5 & A6 & A7).
       destruct (run_from s1 (repeat SCbStep (S n))) as [s2 e2]. cbn [fst snd] in *.
-      rewrite count_cb_app, C1 in *. repeat split; try congruence. lia. }
+      unfold cb_done. rewrite count_cb_app, C1 in *. repeat split; try congruence. lia. }
+    fold (cb_done s (fst (run_from s (repeat SCbStep (S (S n))))) (snd (run_from s (repeat SCbStep (S (S n))))) k t).
     destruct acts as [|a r]; [apply (Fin false); unfold cb_step; rewrite Cu; reflexivity|].
     assert (Kr : keeps k r) by (intros x Hx; apply Kp; right; exact Hx).
     cbn [length] in Ln.
-    destruct a as [|j|d rep a p|].
+    destruct a as [|j|d rep a p| |].
     + exfalso. destruct (Kp ACancelSelf (or_introl eq_refl)) as [X _]. congruence.
     + assert (N : j <> k).
-      { intro X. subst j. destruct (Kp (ACancel k) (or_introl eq_refl)) as [_ X]. congruence. }
-      eapply Go with (r := r); [unfold cb_step; rewrite Cu; reflexivity | | lia | exact Kr | | | | | ];
+      { intro X. subst j. destruct (Kp (ACancel k) (or_introl eq_refl)) as (_ & X & _). congruence. }
+      eapply Go with (r := r); [unfold cb_step; rewrite Cu; reflexivity | | lia | exact Kr | | | | | | ];
         unfold cancel; cbn [fst snd with_cur objs cur].
       * destruct (aget j (objs s)) as [tj|]; [destruct (t_reg tj)|]; reflexivity.
       * destruct (aget j (objs s)) as [tj|]; [destruct (t_reg tj)|]; cbn [put with_objs objs]; auto.
@@ -1090,12 +1163,36 @@ Proof.
       * destruct (aget j (objs s)) as [tj|]; [destruct (t_reg tj)|]; reflexivity.
       * destruct (aget j (objs s)) as [tj|]; [destruct (t_reg tj)|]; reflexivity.
       * destruct (aget j (objs s)) as [tj|]; [destruct (t_reg tj)|]; reflexivity.
+      * destruct (aget j (objs s)) as [tj|]; [destruct (t_reg tj)|]; reflexivity.
       * cbn [count_cb]. reflexivity.
     + destruct (inv_some _ _ _ _ I E) as [_ Rk].
-      eapply Go with (r := r); [unfold cb_step; rewrite Cu; reflexivity | | lia | exact Kr | | | | | ];
-        unfold create; cbn [fst snd with_cur objs cur next running queue clock count_cb]; try reflexivity.
+      eapply Go with (r := r); [unfold cb_step; rewrite Cu; reflexivity | | lia | exact Kr | | | | | | ];
+        unfold create; cbn [fst snd with_cur objs cur next running queue clock life_of count_cb]; try reflexivity.
       rewrite aget_aset_other by lia. exact E.
     + apply (Fin true). unfold cb_step. rewrite Cu. reflexivity.
+    + exfalso. destruct (Kp AStop (or_introl eq_refl)) as (_ & _ & X). congruence.
+Qed.
+
+(* the callback of a live repeating timer k has been entered on a live loop: finishing it leaves
+   k armed for the next period - the situation CyclePre describes *)
+Lemma finish_cycle s tr k d p t :
+  Inv s tr -> cur s = Some (k, p) -> running s = true -> life_of s = LUp ->
+  Z.of_nat (length (queue s)) < qcap ->
+  aget k (objs s) = Some t -> t_canceled t = false -> t_period t = d -> 0 < d ->
+  t_prog t = p -> keeps k p ->
+  exists t',
+    CyclePre (fst (run_from s (repeat SCbStep (S (length p))))) k d p t' /\
+    count_cb k (snd (run_from s (repeat SCbStep (S (length p))))) = 0.
+Proof.
+  intros I Cu Rn Up Cap E Ca Pe Po Pr Kp.
+  destruct (cb_loop k (length p) s tr p t I Cu (le_n _) Kp E Ca) as (A1 & A2 & A3 & A4 & A5 & A6 & A7);
+    [lia|].
+  exists (set_tok (Pending (clock s + t_period t)) t). split; [|exact A7].
+  constructor; auto.
+  - rewrite A3. exact Rn.
+  - rewrite A6. exact Up.
+  - rewrite A4. exact Cap.
+  - eexists. split; [reflexivity|]. rewrite A5. lia.
 Qed.
 
 Lemma cycle_once s tr k d p t :
@@ -1104,28 +1201,20 @@ Lemma cycle_once s tr k d p t :
     CyclePre (fst (run_from s (cycle k d (length p)))) k d p t' /\
     count_cb k (snd (run_from s (cycle k d (length p)))) = 1.
 Proof.
-  intros I [Cu Rn Cap E Ca Pe Po Pr Kp (dl & Q & D)].
+  intros I [Cu Rn Up Cap E Ca Pe Po Pr Kp (dl & Q & D)].
   unfold cycle. rewrite run_from_app.
   assert (M : Z.max 0 d = d) by lia.
-  rewrite (fire_and_begin s tr k t dl d I Cu Rn Cap E Ca Q) by lia.
+  assert (Dr : drains (life_of s) = true) by (rewrite Up; reflexivity).
+  rewrite (fire_and_begin s tr k t dl d I Cu Rn Dr Cap E Ca Q) by lia.
   pose proof (inv_run_from [SAdvance d; SFireCheck k; SFireSend k; SBegin k] s tr I) as I4.
-  rewrite (fire_and_begin s tr k t dl d I Cu Rn Cap E Ca Q) in I4 by lia.
+  rewrite (fire_and_begin s tr k t dl d I Cu Rn Dr Cap E Ca Q) in I4 by lia.
   cbn [fst snd] in *. rewrite M in *.
   set (s4 := mkS (clock s + d) (running s) (next s) (aset k (set_tok InCb t) (objs s)) (queue s)
-                 (Some (k, t_prog t)) (pred (recvd s))) in *.
-  destruct (cb_loop k (length p) s4 _ (t_prog t) (set_tok InCb t) I4) as (A1 & A2 & A3 & A4 & A5 & A6);
-    try reflexivity.
-  - rewrite Pr. lia.
-  - rewrite Pr. exact Kp.
+                 (Some (k, t_prog t)) (pred (recvd s)) (life_of s)) in *.
+  destruct (finish_cycle s4 _ k d p (set_tok InCb t) I4) as (t' & P' & C'); try reflexivity; auto.
+  - cbn [s4 cur]. rewrite Pr. reflexivity.
   - cbn [s4 objs]. apply aget_aset_same.
-  - exact Ca.
-  - cbn [set_tok t_period]. lia.
-  - exists (set_tok (Pending (clock s4 + t_period (set_tok InCb t))) (set_tok InCb t)). split.
-    + constructor; auto.
-      * rewrite A3. exact Rn.
-      * rewrite A4. exact Cap.
-      * eexists. split; [reflexivity|]. rewrite A5. cbn [set_tok t_period]. lia.
-    + rewrite count_cb_app, A6. cbn [count_cb]. rewrite Z.eqb_refl. lia.
+  - exists t'. split; [exact P'|]. rewrite count_cb_app, C'. cbn [count_cb]. rewrite Z.eqb_refl. lia.
 Qed.
 
 Lemma cycles_count m : forall s tr k d p t,
@@ -1151,28 +1240,29 @@ Proof.
 Qed.
 
 Lemma fire_then_do xs k t dl dt :
-  cur (final xs) = None -> running (final xs) = true ->
+  cur (final xs) = None -> running (final xs) = true -> drains (life_of (final xs)) = true ->
   Z.of_nat (length (queue (final xs))) < qcap ->
   aget k (objs (final xs)) = Some t -> t_canceled t = false -> t_tok t = Pending dl ->
   dl <= clock (final xs) + Z.max 0 dt ->
   trace (xs ++ [SAdvance dt; SFireCheck k; SFireSend k; SBegin k]) =
   trace xs ++ [EQueued k; ECb k (clock (final xs) + Z.max 0 dt) (t_args t)].
 Proof.
-  intros Cu Rn Cap E Ca Q D. rewrite trace_app.
-  rewrite (fire_and_begin _ _ k t dl dt (inv_reachable xs) Cu Rn Cap E Ca Q D). reflexivity.
+  intros Cu Rn Dr Cap E Ca Q D. rewrite trace_app.
+  rewrite (fire_and_begin _ _ k t dl dt (inv_reachable xs) Cu Rn Dr Cap E Ca Q D). reflexivity.
 Qed.
 
 Lemma queued_do xs k t :
-  cur (final xs) = None -> aget k (objs (final xs)) = Some t -> t_tok t = Queued ->
+  cur (final xs) = None -> drains (life_of (final xs)) = true ->
+  aget k (objs (final xs)) = Some t -> t_tok t = Queued ->
   t_canceled t = false ->
   trace (xs ++ [SBegin k]) = trace xs ++ [ECb k (clock (final xs)) (t_args t)].
 Proof.
-  intros Cu E Q Ca. rewrite trace_app. cbn [run_from step].
+  intros Cu Dr E Q Ca. rewrite trace_app. cbn [run_from step].
   destruct (inv_some _ _ _ _ (inv_reachable xs) E) as [T _].
   pose proof (ti_queue _ _ _ _ T) as Zq. rewrite Q in Zq. cbn [qcount] in Zq.
   assert (M : zmem k (queue (final xs)) = true).
   { apply zmem_In. apply zcount_In. lia. }
-  rewrite (begin_ok _ k t Cu M E Ca). reflexivity.
+  rewrite (begin_ok _ k t Cu Dr M E Ca). reflexivity.
 Qed.
 
 (* ---- a panic is an early return: same state, nothing else touched ---- *)
@@ -1209,48 +1299,60 @@ Qed.
 (* ---- callbacks are started by the owner's Do only ---- *)
 Lemma cb_only_from_do s x k c a :
   In (ECb k c a) (snd (step s x)) ->
-  (x = SBegin k \/ (x = SDoNext /\ hd_error (queue s) = Some k)) /\ cur s = None /\ c = clock s.
+  (x = SBegin k \/ (x = SDoNext /\ hd_error (queue s) = Some k)) /\ cur s = None /\ c = clock s /\
+  drains (life_of s) = true.
 Proof.
-  assert (B : forall j, In (ECb k c a) (snd (begin_at s j)) -> j = k /\ cur s = None /\ c = clock s).
+  assert (B : forall j, In (ECb k c a) (snd (begin_at s j)) ->
+                        j = k /\ cur s = None /\ c = clock s /\ drains (life_of s) = true).
   { intro j. unfold begin_at. destruct (cur s); [intros []|].
+    destruct (drains (life_of s)); cbn [negb]; [|intros []].
     destruct (zmem j (queue s)); [|intros []]. destruct (aget j (objs s)) as [t|]; [|intros []].
     destruct (t_canceled t); [intros []|]. intros [H|[]]. inv H. auto. }
   assert (R : forall j p, ~ In (ECb k c a) (snd (ret s j p))).
   { intros j p. unfold ret. destruct (aget j (objs s)) as [t|]; [|intros [H|[]]; discriminate].
     destruct (t_canceled t); [|destruct (0 <? t_period t)]; cbn [snd]; intros H; cbn in H; intuition discriminate. }
-  destruct x as [d rep a' p|j| |j| | |dt|j|j| ]; cbn [step].
+  destruct x as [d rep a' p|j| |j| | |dt|j|j| | | | ]; cbn [step].
   - intros [H|[]]. discriminate.
   - intros [H|[]]. discriminate.
   - intros [H|[]]. discriminate.
-  - intro H. destruct (B _ H) as (-> & Cu & C). auto.
-  - destruct (queue s) as [|j q] eqn:Q; [intros []|]. intro H. destruct (B _ H) as (-> & Cu & C). auto.
+  - intro H. destruct (B _ H) as (-> & Cu & C & Dr). auto.
+  - destruct (queue s) as [|j q] eqn:Q; [intros []|]. intro H. destruct (B _ H) as (-> & Cu & C & Dr). auto 6.
   - unfold cb_step. destruct (cur s) as [[j acts]|]; [|intros []].
-    destruct acts as [|[|i|d rep a' p|] r]; intro H; try (exfalso; eapply R; exact H);
-      cbn in H; intuition discriminate.
+    destruct acts as [|[|i|d rep a' p| |] r]; intro H; try (exfalso; eapply R; exact H);
+      try (cbn in H; intuition discriminate).
+    destruct (svc_stop_events (with_cur s (Some (j, r)))) as [X|X]; rewrite X in H; cbn in H;
+      intuition discriminate.
   - intros [].
   - unfold fire_check. destruct (aget j (objs s)) as [t|]; [|intros []].
     destruct (t_tok t); try (intros []). destruct (_ <=? _); [|intros []].
     destruct (t_canceled t); [intros []|]. destruct (running s); intros [].
   - unfold fire_send. destruct (aget j (objs s)) as [t|]; [|intros []].
     destruct (t_tok t); try (intros []). destruct (_ <? _); [|intros []]. intros [H|[]]. discriminate.
-  - unfold recv. destruct (_ <? _)%nat; intros [].
+  - unfold recv. destruct (_ && _); intros [].
+  - unfold svc_start. destruct (life_of s); cbn; intuition discriminate.
+  - unfold svc_close. destruct (life_of s); cbn; intuition discriminate.
+  - unfold loop_end. destruct (life_of s); destruct (cur s); cbn; intuition discriminate.
 Qed.
 
 (* ---- the harness' logical ops are step lists: every theorem above applies to them ---- *)
-Lemma ops_trace_steps ops : forall s, ops_trace s ops = snd (run_from s (steps_of s ops)).
+Lemma ops_trace_steps ops : forall s bs, ops_trace s ops bs = snd (run_from s (steps_of s ops bs)).
 Proof.
-  induction ops as [|o r IH]; intro s; cbn [ops_trace steps_of]; [reflexivity|].
+  induction ops as [|o r IH]; intros s bs; cbn [ops_trace steps_of]; [reflexivity|].
   rewrite run_from_app. cbn [snd]. rewrite IH. reflexivity.
 Qed.
 
-Lemma exec_from_obs ops : forall s tr,
-  exec_from s tr ops =
+Lemma exec_from_obs ops : forall s tr bs,
+  exec_from s tr ops bs =
   match ops with
   | [] => []
-  | o :: r => obs_of o tr (snd (run_from s (compile s o)))
-              :: exec_from (fst (run_from s (compile s o))) (tr ++ snd (run_from s (compile s o))) r
+  | o :: r => obs_of o tr (snd (run_from s (compile s o (hint bs))))
+              :: exec_from (fst (run_from s (compile s o (hint bs))))
+                           (tr ++ snd (run_from s (compile s o (hint bs)))) r (tl bs)
   end.
-Proof. destruct ops as [|o r]; intros s tr; cbn [exec_from]; [reflexivity|]. destruct (run_from s (compile s o)); reflexivity. Qed.
+Proof.
+  destruct ops as [|o r]; intros s tr bs; cbn [exec_from]; [reflexivity|].
+  destruct (run_from s (compile s o (hint bs))); reflexivity.
+Qed.
 
 Lemma one_token xs k :
   zcount k (queue (final xs)) =
@@ -1261,15 +1363,20 @@ Proof.
   - apply (ab_queue _ _ _ (inv_none _ _ _ I E)).
 Qed.
 
-Lemma ops_are_steps ops : ops_trace init ops = trace (steps_of init ops).
-Proof. apply ops_trace_steps. Qed.
+Lemma ops_are_steps ops bs :
+  start_trace ops ++ ops_trace (start_state ops) ops bs =
+  trace (pre_steps ops ++ steps_of (start_state ops) ops bs).
+Proof.
+  unfold trace, start_trace, start_state. rewrite run_from_app. cbn [snd].
+  rewrite ops_trace_steps. reflexivity.
+Qed.
 
 (* ---- non-vacuity witnesses ---- *)
 Lemma keeps_example : keeps 0 [ACreate 1 false 3 []; APanic].
-Proof. intros a [<-|[<-|[]]]; split; discriminate. Qed.
+Proof. intros a [<-|[<-|[]]]; repeat split; discriminate. Qed.
 
 Lemma cyclepre_example :
-  exists t, CyclePre (final [SCreate 2 true 7 [ACreate 1 false 3 []; APanic]]) 0 2
+  exists t, CyclePre (final [SStart; SCreate 2 true 7 [ACreate 1 false 3 []; APanic]]) 0 2
                      [ACreate 1 false 3 []; APanic] t
             /\ t_prog t = [ACreate 1 false 3 []; APanic].
 Proof.
@@ -1479,6 +1586,7 @@ Qed.
 Lemma qu_begin s k : quiet_upd s (fst (begin_at s k)).
 Proof.
   unfold begin_at. destruct (cur s); [apply qu_same; reflexivity|].
+  destruct (drains (life_of s)); cbn [negb]; [|apply qu_same; reflexivity].
   destruct (zmem k (queue s)); [|apply qu_same; reflexivity].
   destruct (aget k (objs s)) as [t|] eqn:E; [|apply qu_same; reflexivity].
   destruct (t_canceled t); cbn [fst].
@@ -1508,25 +1616,38 @@ Proof.
   destruct (_ <? _); [|apply qu_same; reflexivity]. cbn [fst]. eapply qu_put; eauto.
 Qed.
 
+Lemma objs_svc_stop s : objs (fst (svc_stop s)) = objs s /\ next (fst (svc_stop s)) = next s.
+Proof.
+  rewrite svc_stop_eq. unfold mgr_stop, svc_close. cbn [fst with_running life_of].
+  destruct (life_of s); cbn; auto.
+Qed.
+
+Lemma qu_svc_stop s : quiet_upd s (fst (svc_stop s)).
+Proof. destruct (objs_svc_stop s). apply qu_same; assumption. Qed.
+
 Lemma sorted_step s x : sorted (objs s) -> sorted (objs (fst (step s x))).
 Proof.
-  intro S. destruct x as [d rep a p|k| |k| | |dt|k|k| ]; cbn [step].
+  intro S. destruct x as [d rep a p|k| |k| | |dt|k|k| | | | ]; cbn [step].
   - cbn. apply sorted_aset. exact S.
   - apply (qu_cancel s k). exact S.
   - exact S.
   - apply (qu_begin s k). exact S.
   - destruct (queue s) as [|k q]; [exact S | apply (qu_begin s k); exact S].
   - unfold cb_step. destruct (cur s) as [[k acts]|]; [|exact S].
-    destruct acts as [|[|j|d rep a p|] r].
+    destruct acts as [|[|j|d rep a p| |] r].
     + apply (qu_ret s k false). exact S.
     + apply (qu_cancel (with_cur s (Some (k, r))) k). exact S.
     + apply (qu_cancel (with_cur s (Some (k, r))) j). exact S.
     + cbn. apply sorted_aset. exact S.
     + apply (qu_ret s k true). exact S.
+    + apply (qu_svc_stop (with_cur s (Some (k, r)))). exact S.
   - exact S.
   - apply (qu_fire_check s k). exact S.
   - apply (qu_fire_send s k). exact S.
-  - unfold recv. destruct (_ <? _)%nat; exact S.
+  - unfold recv. destruct (_ && _); exact S.
+  - unfold svc_start. destruct (life_of s); exact S.
+  - unfold svc_close. destruct (life_of s); exact S.
+  - unfold loop_end. destruct (life_of s); destruct (cur s); exact S.
 Qed.
 
 Lemma sorted_run_from xs : forall s, sorted (objs s) -> sorted (objs (fst (run_from s xs))).
@@ -1708,7 +1829,7 @@ Proof.
     { apply inv_ext with (s := s); auto; try reflexivity; try lia.
       unfold cur_key. cbn [with_cur cur]. rewrite Cu. reflexivity. }
     assert (RW : Rel (with_cur s (Some (k, r))) tr m) by (apply rel_ext with (s := s); auto).
-    destruct a as [|j|d rep a p|]; cbn [m_prog_run].
+    destruct a as [|j|d rep a p| |]; cbn [m_prog_run].
     + eapply Go; [unfold cb_step; rewrite Cu; apply surjective_pairing | | lia | |].
       * rewrite cur_cancel. reflexivity.
       * apply rel_cancel; assumption.
@@ -1722,14 +1843,24 @@ Proof.
       * apply rel_create; assumption.
       * intros j' c a' [X|[]]. discriminate.
     + apply (Fin true); [unfold cb_step; rewrite Cu|]; reflexivity.
+    + assert (NS : nocb (snd (svc_stop (with_cur s (Some (k, r)))))).
+      { intros j c a H. destruct (svc_stop_events (with_cur s (Some (k, r)))) as [X|X]; rewrite X in H;
+          cbn in H; intuition discriminate. }
+      eapply Go; [unfold cb_step; rewrite Cu; apply surjective_pairing | | lia | | exact NS].
+      * rewrite svc_stop_eq. unfold mgr_stop, svc_close. cbn [fst with_running with_cur life_of cur].
+        destruct (life_of s); reflexivity.
+      * apply rel_quiet with (s := with_cur s (Some (k, r))); [exact RW | apply qu_svc_stop | exact NS].
 Qed.
 
 Lemma begin_cases s k :
   cur s = None ->
   (snd (begin_at s k) = [] /\ cur (fst (begin_at s k)) = None) \/
-  (exists t, zmem k (queue s) = true /\ aget k (objs s) = Some t /\ t_canceled t = false).
+  (exists t, drains (life_of s) = true /\ zmem k (queue s) = true /\ aget k (objs s) = Some t /\
+             t_canceled t = false).
 Proof.
-  intro Cu. unfold begin_at. rewrite Cu. destruct (zmem k (queue s)) eqn:M; [|left; auto].
+  intro Cu. unfold begin_at. rewrite Cu.
+  destruct (drains (life_of s)) eqn:Dr; cbn [negb]; [|left; auto].
+  destruct (zmem k (queue s)) eqn:M; [|left; auto].
   destruct (aget k (objs s)) as [t|] eqn:E; [|left; cbn; auto].
   destruct (t_canceled t) eqn:Ca; [left; cbn; auto | right; eauto].
 Qed.
@@ -1777,7 +1908,7 @@ Lemma do_segment s tr m k n :
                    (tr ++ snd (run_from s (SBegin k :: repeat SCbStep (S n)))) m')).
 Proof.
   intros I R Cu Ln. cbn [run_from step].
-  destruct (begin_cases s k Cu) as [[E0 C0]|(t & M & E & Ca)].
+  destruct (begin_cases s k Cu) as [[E0 C0]|(t & Dr & M & E & Ca)].
   - pose proof (rel_quiet s _ tr (snd (begin_at s k)) m R (qu_begin s k)) as R1. rewrite E0 in R1.
     destruct (begin_at s k) as [s1 e1]. cbn [fst snd] in *. subst e1.
     rewrite (idle_cb (S n) s1 C0). cbn [fst snd app]. split; [exact C0|]. left.
@@ -1786,7 +1917,7 @@ Proof.
     destruct (inv_some _ _ _ _ I E) as [T _].
     destruct (rel_get' _ _ _ _ _ R E) as (i & Ei & (H1 & H2 & H3 & H4)).
     pose proof (inv_begin s tr k I) as I1. pose proof (qu_begin s k) as Q1.
-    rewrite (begin_ok s k t2 Cu M E Ca) in *. cbn [fst snd] in I1, Q1.
+    rewrite (begin_ok s k t2 Cu Dr M E Ca) in *. cbn [fst snd] in I1, Q1.
     set (s1 := with_cur (put (dequeue s k) k (set_tok InCb t2)) (Some (k, t_prog t2))) in *.
     pose proof (rel_count s s1 tr m k i (clock s) (t_args t2) R Q1 Ei) as R1.
     set (m1 := aset k (mkM (m_rep i) (m_prog i) (m_cancelled i) (m_count i + 1)) m) in *.
@@ -1820,23 +1951,27 @@ Proof.
               exists t', aget k (objs (fst (create s0 d rep a p))) = Some t' /\ t_prog t' = t_prog t).
   { intros s0 d rep a p Ho Hn. unfold create. cbn [fst objs]. rewrite Ho, Hn.
     destruct (inv_some _ _ _ _ I E) as [_ Rk]. rewrite aget_aset_other by lia. eauto. }
-  destruct x as [d rep a p|j| |j| | |dt|j|j| ]; cbn [step].
+  destruct x as [d rep a p|j| |j| | |dt|j|j| | | | ]; cbn [step].
   - apply C; reflexivity.
   - apply Q, qu_cancel.
   - cbn [fst objs]. eauto.
   - apply Q, qu_begin.
   - destruct (queue s) as [|j q]; [cbn [fst]; eauto | apply Q, qu_begin].
   - unfold cb_step. destruct (cur s) as [[j acts]|]; [|cbn [fst]; eauto].
-    destruct acts as [|[|i|d rep a p|] r].
+    destruct acts as [|[|i|d rep a p| |] r].
     + apply Q, qu_ret.
     + apply Q. eapply qu_trans; [|apply qu_cancel]. apply qu_same; reflexivity.
     + apply Q. eapply qu_trans; [|apply qu_cancel]. apply qu_same; reflexivity.
     + apply C; reflexivity.
     + apply Q, qu_ret.
+    + apply Q. eapply qu_trans; [|apply qu_svc_stop]. apply qu_same; reflexivity.
   - cbn [fst objs]. eauto.
   - apply Q, qu_fire_check.
   - apply Q, qu_fire_send.
-  - unfold recv. destruct (_ <? _)%nat; cbn [fst objs]; eauto.
+  - unfold recv. destruct (_ && _); cbn [fst objs]; eauto.
+  - unfold svc_start. destruct (life_of s); cbn [fst objs with_life]; eauto.
+  - unfold svc_close. destruct (life_of s); cbn [fst objs with_life]; eauto.
+  - unfold loop_end. destruct (life_of s); destruct (cur s); cbn [fst objs with_life]; eauto.
 Qed.
 
 Lemma prog_stable_run xs : forall s tr k t,
@@ -1910,12 +2045,13 @@ Proof.
   split; [auto|]. split; [reflexivity|]. intros j N. apply aget_aset_other. exact N.
 Qed.
 
-Definition pairf (k : Z) : list step_t := [SFireCheck k; SFireSend k; SRecv].
+Definition pairf (rc : bool) (k : Z) : list step_t :=
+  SFireCheck k :: SFireSend k :: (if rc then [SRecv] else []).
 
 Lemma recv_facts s :
   snd (recv s) = [] /\ objs (fst (recv s)) = objs s /\
   next (fst (recv s)) = next s /\ cur (fst (recv s)) = cur s.
-Proof. unfold recv. destruct (_ <? _)%nat; cbn; auto. Qed.
+Proof. unfold recv. destruct (_ && _); cbn; auto. Qed.
 
 Lemma pending_not_cancelled s tr m k t dl :
   Inv s tr -> Rel s tr m -> aget k (objs s) = Some t -> t_tok t = Pending dl ->
@@ -1928,14 +2064,27 @@ Proof.
   destruct (ti_cancel_sound _ _ _ _ T C) as [_ N]. exact (N dl Q).
 Qed.
 
-Lemma settle_loop ks : forall s tr m,
+(* an optional receive after the send changes nothing the monitor or the invariant look at *)
+Lemma recv_opt_ok (rc : bool) s tr m :
+  Inv s tr -> Rel s tr m ->
+  let r := run_from s (if rc then [SRecv] else []) in
+  snd r = [] /\ Inv (fst r) tr /\ Rel (fst r) tr m /\ objs (fst r) = objs s /\ cur (fst r) = cur s.
+Proof.
+  intros I R. destruct rc; cbn [run_from step fst snd]; [|auto 10].
+  destruct (recv_facts s) as (V1 & V2 & V3 & V4).
+  pose proof (inv_step s tr SRecv I) as I3. cbn [step] in I3.
+  destruct (recv s) as [s' e']. cbn [fst snd] in *. subst e'. rewrite app_nil_r in *.
+  split; [reflexivity|]. split; [exact I3|]. split; [apply rel_ext with (s := s); auto | auto].
+Qed.
+
+Lemma settle_loop (rc : bool) ks : forall s tr m,
   Inv s tr -> Rel s tr m -> NoDup ks ->
   (forall k, In k ks -> exists t dl, aget k (objs s) = Some t /\ t_tok t = Pending dl) ->
-  cur (fst (run_from s (flat_map pairf ks))) = cur s /\
-  Rel (fst (run_from s (flat_map pairf ks))) (tr ++ snd (run_from s (flat_map pairf ks))) m /\
-  nocb (snd (run_from s (flat_map pairf ks))) /\
-  subseq (queued_of (snd (run_from s (flat_map pairf ks)))) ks /\
-  (forall k, In k (queued_of (snd (run_from s (flat_map pairf ks)))) ->
+  cur (fst (run_from s (flat_map (pairf rc) ks))) = cur s /\
+  Rel (fst (run_from s (flat_map (pairf rc) ks))) (tr ++ snd (run_from s (flat_map (pairf rc) ks))) m /\
+  nocb (snd (run_from s (flat_map (pairf rc) ks))) /\
+  subseq (queued_of (snd (run_from s (flat_map (pairf rc) ks)))) ks /\
+  (forall k, In k (queued_of (snd (run_from s (flat_map (pairf rc) ks)))) ->
      exists i, aget k m = Some i /\ m_cancelled i = false).
 Proof.
   induction ks as [|k ks IH]; intros s tr m I R ND P; cbn [flat_map].
@@ -1944,7 +2093,8 @@ Proof.
     split; [constructor | intros j []].
   - inv ND. destruct (P k (or_introl eq_refl)) as (t & dl & E & Q).
     destruct (pending_not_cancelled _ _ _ _ _ _ I R E Q) as (i & Ei & NC).
-    change (pairf k ++ flat_map pairf ks) with (SFireCheck k :: SFireSend k :: SRecv :: flat_map pairf ks).
+    change (pairf rc k ++ flat_map (pairf rc) ks)
+      with (SFireCheck k :: SFireSend k :: ((if rc then [SRecv] else []) ++ flat_map (pairf rc) ks)).
     cbn [run_from step].
     destruct (fc_facts s k) as (F1 & F2 & F3).
     pose proof (inv_fire_check s tr k I) as I1.
@@ -1957,15 +2107,14 @@ Proof.
     destruct (fire_send s1 k) as [s2 e2]. cbn [fst snd] in *.
     assert (N2 : nocb e2) by (destruct G1 as [->| ->]; intros j c a X; cbn in X; intuition discriminate).
     specialize (R2 N2).
-    destruct (recv_facts s2) as (V1 & V2 & V3 & V4).
-    pose proof (inv_step s2 (tr ++ e2) SRecv I2) as I3.
-    cbn [step] in I3. destruct (recv s2) as [s2' e2']. cbn [fst snd] in *. subst e2'. rewrite app_nil_r in I3.
-    assert (R3 : Rel s2' (tr ++ e2) m) by (apply rel_ext with (s := s2); auto).
+    rewrite run_from_app.
+    destruct (recv_opt_ok rc s2 (tr ++ e2) m I2 R2) as (V1 & I3 & R3 & V2 & V4).
+    destruct (run_from s2 (if rc then [SRecv] else [])) as [s2' e2']. cbn [fst snd] in *. subst e2'.
     assert (P2 : forall j, In j ks -> exists t dl, aget j (objs s2') = Some t /\ t_tok t = Pending dl).
     { intros j Hj. assert (j <> k) by (intro; subst; contradiction).
       rewrite V2, G3, F3 by assumption. apply P. right. exact Hj. }
     destruct (IH s2' _ m I3 R3 H2 P2) as (A1 & A2 & A3 & A4 & A5).
-    destruct (run_from s2' (flat_map pairf ks)) as [s3 e3]. cbn [fst snd app] in *.
+    destruct (run_from s2' (flat_map (pairf rc) ks)) as [s3 e3]. cbn [fst snd app] in *.
     split; [congruence|]. split; [rewrite app_assoc; exact A2|].
     split; [apply nocb_app; assumption|]. rewrite queued_of_app.
     destruct G1 as [->| ->]; cbn [queued_of app].
@@ -1980,19 +2129,29 @@ Proof.
   - rewrite (ab_queue _ _ _ (inv_none _ _ _ I E)). lia.
 Qed.
 
-Lemma settle_ok s tr m g :
+(* Settle (rc = true: the owner receives all the time) and Wait (rc = false: nobody receives) *)
+Definition settle_gen (rc : bool) (s : st) (g : Z) : list step_t :=
+  let pk := pending (objs s) in
+  SAdvance (fold_right Z.max (clock s) (map snd pk) - clock s)
+    :: flat_map (pairf rc) (map fst pk) ++ [SAdvance g].
+
+Lemma settle_steps_gen s g : settle_steps s g = settle_gen true s g.
+Proof. reflexivity. Qed.
+Lemma wait_steps_gen s g : wait_steps s g = settle_gen false s g.
+Proof. reflexivity. Qed.
+
+Lemma settle_gen_ok (rc : bool) s tr m g :
   Inv s tr -> Rel s tr m -> sorted (objs s) ->
-  cur (fst (run_from s (settle_steps s g))) = cur s /\
-  Rel (fst (run_from s (settle_steps s g))) (tr ++ snd (run_from s (settle_steps s g))) m /\
-  nocb (snd (run_from s (settle_steps s g))) /\
-  m_queued_ok m (queued_of (snd (run_from s (settle_steps s g)))) = true.
+  cur (fst (run_from s (settle_gen rc s g))) = cur s /\
+  Rel (fst (run_from s (settle_gen rc s g))) (tr ++ snd (run_from s (settle_gen rc s g))) m /\
+  nocb (snd (run_from s (settle_gen rc s g))) /\
+  m_queued_ok m (queued_of (snd (run_from s (settle_gen rc s g)))) = true.
 Proof.
-  intros I R S. unfold settle_steps.
+  intros I R S. unfold settle_gen.
   set (ks := map fst (pending (objs s))).
   set (a := fold_right Z.max (clock s) (map snd (pending (objs s))) - clock s).
-  change (flat_map (fun k => [SFireCheck k; SFireSend k; SRecv]) ks) with (flat_map pairf ks).
   cbn [run_from step].
-  set (s1 := mkS (clock s + Z.max 0 a) (running s) (next s) (objs s) (queue s) (cur s) (recvd s)).
+  set (s1 := mkS (clock s + Z.max 0 a) (running s) (next s) (objs s) (queue s) (cur s) (recvd s) (life_of s)).
   assert (I1 : Inv s1 tr).
   { pose proof (inv_step s tr (SAdvance a) I) as X. cbn [step fst snd] in X. rewrite app_nil_r in X. exact X. }
   assert (R1 : Rel s1 tr m) by (apply rel_ext with (s := s); auto).
@@ -2000,14 +2159,30 @@ Proof.
   { intros k Hk. apply in_map_iff in Hk. destruct Hk as ([k' dl] & <- & Hk).
     destruct (pending_spec _ _ _ Hk S) as (t & E & Q). exists t, dl. auto. }
   rewrite run_from_app.
-  destruct (settle_loop ks s1 tr m I1 R1 (pending_nodup _ S) P) as (A1 & A2 & A3 & A4 & A5).
-  pose proof (inv_run_from (flat_map pairf ks) s1 tr I1) as I2.
-  destruct (run_from s1 (flat_map pairf ks)) as [s2 e2]. cbn [fst snd run_from step app] in *.
+  destruct (settle_loop rc ks s1 tr m I1 R1 (pending_nodup _ S) P) as (A1 & A2 & A3 & A4 & A5).
+  pose proof (inv_run_from (flat_map (pairf rc) ks) s1 tr I1) as I2.
+  destruct (run_from s1 (flat_map (pairf rc) ks)) as [s2 e2]. cbn [fst snd run_from step app] in *.
   rewrite !app_nil_r. split; [exact A1|]. split; [apply rel_ext with (s := s2); auto|].
   split; [exact A3|]. unfold m_queued_ok. apply andb_true_iff. split.
   - apply (nodupb_of_subseq _ ks A4). apply pending_nodup. exact S.
   - apply forallb_forall. intros k Hk. destruct (A5 k Hk) as (i & Ei & NC). rewrite Ei, NC. reflexivity.
 Qed.
+
+Lemma settle_ok s tr m g :
+  Inv s tr -> Rel s tr m -> sorted (objs s) ->
+  cur (fst (run_from s (settle_steps s g))) = cur s /\
+  Rel (fst (run_from s (settle_steps s g))) (tr ++ snd (run_from s (settle_steps s g))) m /\
+  nocb (snd (run_from s (settle_steps s g))) /\
+  m_queued_ok m (queued_of (snd (run_from s (settle_steps s g)))) = true.
+Proof. rewrite settle_steps_gen. apply settle_gen_ok. Qed.
+
+Lemma wait_ok s tr m g :
+  Inv s tr -> Rel s tr m -> sorted (objs s) ->
+  cur (fst (run_from s (wait_steps s g))) = cur s /\
+  Rel (fst (run_from s (wait_steps s g))) (tr ++ snd (run_from s (wait_steps s g))) m /\
+  nocb (snd (run_from s (wait_steps s g))) /\
+  m_queued_ok m (queued_of (snd (run_from s (wait_steps s g)))) = true.
+Proof. rewrite wait_steps_gen. apply settle_gen_ok. Qed.
 
 Lemma prog_len_bound s tr m k :
   Rel s tr m -> forall i, aget k m = Some i -> (length (m_prog i) <= prog_len s k)%nat.
@@ -2033,15 +2208,180 @@ Proof.
     rewrite app_assoc. split; [exact A1 | congruence].
 Qed.
 
-(* the monitor accepts everything the model does, from every reachable idle state *)
-Lemma monitor_exec ops : forall s tr m,
-  Inv s tr -> Rel s tr m -> cur s = None -> sorted (objs s) ->
-  monitor_from m ops (exec_from s tr ops) = true.
+(* ---- a released loop: the observed schedule is followed ---- *)
+
+(* steps of the runtime and the clock: no callback, nothing the monitor looks at *)
+Definition rt (x : step_t) : bool :=
+  match x with SAdvance _ | SFireCheck _ | SFireSend _ => true | _ => false end.
+
+Lemma rt_run_ok xs : forall s tr m,
+  forallb rt xs = true -> Inv s tr -> Rel s tr m ->
+  cur (fst (run_from s xs)) = cur s /\
+  Rel (fst (run_from s xs)) (tr ++ snd (run_from s xs)) m /\
+  nocb (snd (run_from s xs)).
 Proof.
-  induction ops as [|o r IH]; intros s tr m I R Cu Srt; rewrite exec_from_obs; [reflexivity|].
-  pose proof (inv_run_from (compile s o) s tr I) as I1.
-  pose proof (sorted_run_from (compile s o) s Srt) as S1.
-  destruct o as [d rep a p|n d rep a|ms|k| |g|k|]; cbn [compile obs_of monitor_from] in *.
+  induction xs as [|x r IH]; intros s tr m F I R; cbn [run_from].
+  - cbn [fst snd]. rewrite app_nil_r. split; [reflexivity|]. split; [exact R | intros k c a []].
+  - cbn [forallb] in F. apply andb_true_iff in F. destruct F as [Fx Fr].
+    pose proof (inv_step s tr x I) as I1.
+    assert (X : cur (fst (step s x)) = cur s /\ quiet_upd s (fst (step s x)) /\ nocb (snd (step s x))).
+    { destruct x; try discriminate; cbn [step].
+      - split; [reflexivity|]. split; [apply qu_same; reflexivity | intros k c a []].
+      - destruct (fc_facts s k) as (F1 & F2 & _). split; [exact F2|]. split; [apply qu_fire_check|].
+        rewrite F1. intros j c a [].
+      - destruct (fs_facts s k) as (F1 & F2 & _). split; [exact F2|]. split; [apply qu_fire_send|].
+        destruct F1 as [->| ->]; intros j c a H; cbn in H; intuition discriminate. }
+    destruct X as (X1 & X2 & X3).
+    pose proof (rel_quiet s _ tr _ m R X2 X3) as R1.
+    destruct (step s x) as [s1 e1]. cbn [fst snd] in *.
+    destruct (IH s1 _ m Fr I1 R1) as (A1 & A2 & A3).
+    destruct (run_from s1 r) as [s2 e2]. cbn [fst snd] in *.
+    split; [congruence|]. split; [rewrite app_assoc; exact A2 | apply nocb_app; assumption].
+Qed.
+
+Lemma deliver_rt s k : forallb rt (deliver s k) = true.
+Proof.
+  unfold deliver. destruct (aget k (objs s)) as [t|]; [|reflexivity]. destruct (t_tok t); reflexivity.
+Qed.
+
+Lemma delivers_rt s l : forallb rt (flat_map (deliver s) l) = true.
+Proof.
+  induction l as [|k r IH]; cbn [flat_map]; [reflexivity|].
+  rewrite forallb_app, deliver_rt, IH. reflexivity.
+Qed.
+
+(* accepted callback records, and the monitor state they lead to *)
+Definition accepted (s : st) (tr e : list ev) (m : mstate) : Prop :=
+  exists m', m_cbs m (cbrecs tr e) = (true, m') /\ Rel s (tr ++ e) m'.
+
+Lemma accepted_nocb s tr e m : Rel s (tr ++ e) m -> nocb e -> accepted s tr e m.
+Proof. intros R N. exists m. rewrite (cbrecs_nocb e N). split; [reflexivity | exact R]. Qed.
+
+Lemma accepted_app s tr e1 e2 m m1 :
+  m_cbs m (cbrecs tr e1) = (true, m1) -> accepted s (tr ++ e1) e2 m1 -> accepted s tr (e1 ++ e2) m.
+Proof.
+  intros A (m2 & B & R). exists m2. rewrite cbrecs_app, m_cbs_app, A. cbn [fst snd].
+  rewrite B. cbn [fst snd andb]. split; [reflexivity|]. rewrite app_assoc. exact R.
+Qed.
+
+Lemma follow_ok l : forall s tr m,
+  Inv s tr -> Rel s tr m -> cur s = None ->
+  cur (fst (run_from s (follow s l))) = None /\
+  accepted (fst (run_from s (follow s l))) tr (snd (run_from s (follow s l))) m.
+Proof.
+  induction l as [|k r IH]; intros s tr m I R Cu; cbn [follow].
+  - cbn [run_from fst snd]. split; [exact Cu|]. apply accepted_nocb; [rewrite app_nil_r; exact R | intros j c a []].
+  - set (D := flat_map (deliver s) (k :: r)).
+    rewrite !run_from_app. cbn [fst snd].
+    destruct (rt_run_ok D s tr m (delivers_rt s (k :: r)) I R) as (C1 & R1 & N1).
+    pose proof (inv_run_from D s tr I) as I1.
+    destruct (run_from s D) as [s1 e1]. cbn [fst snd] in *.
+    unfold do_steps.
+    destruct (do_segment s1 (tr ++ e1) m k (prog_len s k) I1 R1 (eq_trans C1 Cu) (prog_len_bound s tr m k R))
+      as (C2 & Dd).
+    pose proof (inv_run_from (SBegin k :: repeat SCbStep (S (prog_len s k))) s1 _ I1) as I2.
+    destruct (run_from s1 (SBegin k :: repeat SCbStep (S (prog_len s k)))) as [s2 e2]. cbn [fst snd] in *.
+    assert (A12 : exists m2, m_cbs m (cbrecs tr (e1 ++ e2)) = (true, m2) /\ Rel s2 ((tr ++ e1) ++ e2) m2).
+    { rewrite cbrecs_app, (cbrecs_nocb e1 N1). cbn [app].
+      destruct Dd as [(Z0 & R2)|(m1 & Z1 & B1 & R2)].
+      - exists m. rewrite Z0. split; [reflexivity | exact R2].
+      - exists m1. rewrite Z1. cbn [m_cbs]. rewrite B1. split; [reflexivity | exact R2]. }
+    destruct A12 as (m2 & B2 & R2).
+    rewrite <- app_assoc in I2.
+    destruct (IH s2 (tr ++ e1 ++ e2) m2 I2) as (C3 & A3); [rewrite app_assoc; exact R2 | exact C2|].
+    destruct (run_from s2 (follow s2 r)) as [s3 e3]. cbn [fst snd] in *.
+    split; [exact C3|]. eapply accepted_app; [exact B2|]. exact A3.
+Qed.
+
+(* Do of everything that is queued, in creation order *)
+Lemma doall_ok s tr m :
+  Inv s tr -> Rel s tr m -> cur s = None ->
+  let xs := flat_map (do_steps s) (zsort (queue s)) in
+  cur (fst (run_from s xs)) = None /\
+  exists m', m_cbs m (cbrecs tr (snd (run_from s xs))) = (true, m') /\
+             Rel (fst (run_from s xs)) (tr ++ snd (run_from s xs)) m' /\
+             nodupb (map rec_key (cbrecs tr (snd (run_from s xs)))) = true.
+Proof.
+  intros I R Cu xs. subst xs.
+  change (flat_map (do_steps s) (zsort (queue s))) with (flat_map (seg (prog_len s)) (zsort (queue s))).
+  assert (P : forall k, In k (zsort (queue s)) ->
+              exists t, aget k (objs s) = Some t /\ (length (t_prog t) <= prog_len s k)%nat).
+  { intros k Hk. apply (proj1 (zsort_In k (queue s))) in Hk. apply (proj2 (zmem_In k (queue s))) in Hk.
+    destruct (queued_timer _ _ _ I Hk) as (t & E & _). exists t. split; [exact E|].
+    unfold prog_len. rewrite E. lia. }
+  destruct (doall_loop (prog_len s) (zsort (queue s)) s tr m I R Cu P) as (C1 & m' & A1 & A2 & A3).
+  split; [exact C1|]. exists m'. split; [exact A1|]. split; [exact A2|].
+  apply (nodupb_of_subseq _ _ A3 (zsort_NoDup _ (queue_nodup _ _ I))).
+Qed.
+
+(* steps that only move the owner through its life cycle (or stop the manager) *)
+Lemma life_step_ok s tr m x :
+  x = SStart \/ x = SClose \/ x = SLoopEnd \/ x = SStop ->
+  Inv s tr -> Rel s tr m ->
+  cur (fst (step s x)) = cur s /\ Rel (fst (step s x)) (tr ++ snd (step s x)) m /\ nocb (snd (step s x)) /\
+  objs (fst (step s x)) = objs s.
+Proof.
+  intros X I R.
+  assert (G : cur (fst (step s x)) = cur s /\ objs (fst (step s x)) = objs s /\
+              next (fst (step s x)) = next s /\ nocb (snd (step s x))).
+  { assert (Fin : forall (s' : st) (e : list ev),
+              cur s' = cur s -> objs s' = objs s -> next s' = next s ->
+              (forall y, In y e -> y = EStart \/ y = EClose \/ y = ELoopEnd \/ y = EStop) ->
+              cur s' = cur s /\ objs s' = objs s /\ next s' = next s /\ nocb e).
+    { intros s' e H1 H2 H3 H4. repeat (split; [assumption|]).
+      intros k c a H. destruct (H4 _ H) as [Y|[Y|[Y|Y]]]; discriminate. }
+    destruct X as [->|[->|[->| ->]]]; cbn [step].
+    - unfold svc_start. destruct (life_of s); cbn [fst snd]; apply Fin; try reflexivity;
+        intros y Hy; cbn in Hy; intuition.
+    - unfold svc_close. destruct (life_of s); cbn [fst snd]; apply Fin; try reflexivity;
+        intros y Hy; cbn in Hy; intuition.
+    - unfold loop_end. destruct (life_of s); destruct (cur s) eqn:Cu; cbn [fst snd]; apply Fin;
+        try reflexivity; try exact Cu; intros y Hy; cbn in Hy; intuition.
+    - unfold mgr_stop. cbn [fst snd]. apply Fin; try reflexivity. intros y Hy; cbn in Hy; intuition. }
+  destruct G as (G1 & G2 & G3 & G4). split; [exact G1|]. split; [|split; [exact G4 | exact G2]].
+  apply rel_quiet with (s := s); [exact R | apply qu_same; assumption | exact G4].
+Qed.
+
+Lemma loop_ok s tr m l :
+  Inv s tr -> Rel s tr m -> cur s = None ->
+  cur (fst (run_from s (loop_steps s l))) = None /\
+  accepted (fst (run_from s (loop_steps s l))) tr (snd (run_from s (loop_steps s l))) m.
+Proof.
+  intros I R Cu. unfold loop_steps. rewrite !run_from_app. cbn [fst snd].
+  destruct (follow_ok l s tr m I R Cu) as (C1 & (m1 & B1 & R1)).
+  pose proof (inv_run_from (follow s l) s tr I) as I1.
+  destruct (run_from s (follow s l)) as [s1 e1]. cbn [fst snd] in *.
+  assert (A2 : cur (fst (run_from s1 (rest_steps s1))) = None /\
+               accepted (fst (run_from s1 (rest_steps s1))) (tr ++ e1) (snd (run_from s1 (rest_steps s1))) m1).
+  { unfold rest_steps. destruct (life_of s1).
+    - cbn [run_from fst snd]. split; [exact C1|]. apply accepted_nocb; [rewrite app_nil_r; exact R1 | intros j c a []].
+    - destruct (doall_ok s1 _ m1 I1 R1 C1) as (C2 & m2 & B2 & R2 & _). split; [exact C2|]. exists m2. auto.
+    - cbn [run_from fst snd]. split; [exact C1|]. apply accepted_nocb; [rewrite app_nil_r; exact R1 | intros j c a []].
+    - cbn [run_from fst snd]. split; [exact C1|]. apply accepted_nocb; [rewrite app_nil_r; exact R1 | intros j c a []]. }
+  destruct A2 as (C2 & (m2 & B2 & R2)).
+  pose proof (inv_run_from (rest_steps s1) s1 _ I1) as I2.
+  destruct (run_from s1 (rest_steps s1)) as [s2 e2]. cbn [fst snd] in *.
+  cbn [run_from].
+  destruct (life_step_ok s2 _ m2 SLoopEnd (or_intror (or_intror (or_introl eq_refl))) I2 R2) as (C3 & R3 & N3 & _).
+  destruct (step s2 SLoopEnd) as [s3 e3]. cbn [fst snd] in *. rewrite app_nil_r.
+  split; [congruence|].
+  eapply accepted_app; [exact B1|]. eapply accepted_app; [exact B2|].
+  apply accepted_nocb; [exact R3 | exact N3].
+Qed.
+
+Lemma sorted_objs_eq s s' : objs s' = objs s -> sorted (objs s) -> sorted (objs s').
+Proof. intros -> S. exact S. Qed.
+
+(* the monitor accepts everything the model does, from every reachable idle state, whatever
+   schedules the released loops are told to follow *)
+Lemma monitor_exec ops : forall s tr m bs,
+  Inv s tr -> Rel s tr m -> cur s = None -> sorted (objs s) ->
+  monitor_from m ops (exec_from s tr ops bs) = true.
+Proof.
+  induction ops as [|o r IH]; intros s tr m bs I R Cu Srt; rewrite exec_from_obs; [reflexivity|].
+  pose proof (inv_run_from (compile s o (hint bs)) s tr I) as I1.
+  pose proof (sorted_run_from (compile s o (hint bs)) s Srt) as S1.
+  destruct o as [d rep a p|n d rep a|ms|k| |g|k| | |g| | |w]; cbn [compile obs_of monitor_from] in *.
   - (* create *)
     cbn [run_from] in *. destruct (create s d rep a p) as [s1 e1] eqn:C. cbn [step fst snd] in *.
     rewrite C in *. cbn [fst snd] in *. rewrite app_nil_r in *.
@@ -2063,12 +2403,12 @@ Proof.
     + pose proof (cur_cancel s k) as X. rewrite C in X. cbn [fst] in X. congruence.
   - (* stop = settle, then Mgr.Stop() *)
     rewrite run_from_app in *. destruct (settle_ok s tr m 0 I R Srt) as (A1 & A2 & A3 & A4).
-    destruct (run_from s (settle_steps s 0)) as [s1 e1]. cbn [fst snd run_from step] in *.
+    destruct (run_from s (settle_steps s 0)) as [s1 e1]. cbn [fst snd run_from step mgr_stop] in *.
     rewrite queued_of_app. cbn [queued_of]. rewrite !app_nil_r. rewrite A4. cbn [andb].
     apply IH; auto.
     + rewrite app_assoc. apply rel_quiet with (s := s1); [exact A2 | apply qu_same; reflexivity|].
       intros j c a [X|[]]. discriminate.
-    + cbn [cur]. congruence.
+    + cbn [cur with_running]. congruence.
   - (* settle *)
     destruct (settle_ok s tr m g I R Srt) as (A1 & A2 & A3 & A4).
     destruct (run_from s (settle_steps s g)) as [s1 e1]. cbn [fst snd] in *.
@@ -2082,21 +2422,73 @@ Proof.
     + rewrite Z1. cbn [m_cbs]. rewrite B1. unfold the_rec. cbn [length forallb Nat.leb andb rec_key].
       rewrite Z.eqb_refl. cbn [andb]. apply IH; auto.
   - (* do all *)
-    change (flat_map (do_steps s) (zsort (queue s))) with (flat_map (seg (prog_len s)) (zsort (queue s))) in *.
-    assert (P : forall k, In k (zsort (queue s)) ->
-                exists t, aget k (objs s) = Some t /\ (length (t_prog t) <= prog_len s k)%nat).
-    { intros k Hk. apply (proj1 (zsort_In k (queue s))) in Hk. apply (proj2 (zmem_In k (queue s))) in Hk.
-      destruct (queued_timer _ _ _ I Hk) as (t & E & _). exists t. split; [exact E|].
-      unfold prog_len. rewrite E. lia. }
-    destruct (doall_loop (prog_len s) (zsort (queue s)) s tr m I R Cu P) as (C1 & m' & A1 & A2 & A3).
-    destruct (run_from s (flat_map (seg (prog_len s)) (zsort (queue s)))) as [s1 e1]. cbn [fst snd] in *.
-    rewrite A1. cbn [andb].
-    rewrite (nodupb_of_subseq _ _ A3 (zsort_NoDup _ (queue_nodup _ _ I))). cbn [andb].
+    destruct (doall_ok s tr m I R Cu) as (C1 & m' & A1 & A2 & A3). cbn zeta in *.
+    destruct (run_from s (flat_map (do_steps s) (zsort (queue s)))) as [s1 e1]. cbn [fst snd] in *.
+    rewrite A1, A3. cbn [andb]. apply IH; auto.
+  - (* service marker *)
+    cbn [run_from fst snd] in *. rewrite app_nil_r in *. apply IH; auto.
+  - (* wait: nobody receives *)
+    destruct (wait_ok s tr m g I R Srt) as (A1 & A2 & A3 & A4).
+    destruct (run_from s (wait_steps s g)) as [s1 e1]. cbn [fst snd] in *.
+    rewrite (cbrecs_nocb e1 A3). cbn [m_cbs]. rewrite A4. cbn [andb]. apply IH; auto. congruence.
+  - (* start, then the released loop *)
+    cbn [run_from] in *.
+    destruct (life_step_ok s tr m SStart (or_introl eq_refl) I R) as (C0 & R0 & N0 & O0).
+    pose proof (inv_step s tr SStart I) as I0.
+    destruct (step s SStart) as [s0 e0] eqn:Es0. cbn [fst snd] in *.
+    destruct (loop_ok s0 (tr ++ e0) m (hint bs) I0 R0 (eq_trans C0 Cu)) as (C1 & (m1 & B1 & R1)).
+    destruct (run_from s0 (loop_steps s0 (hint bs))) as [s1 e1]. cbn [fst snd] in *.
+    rewrite cbrecs_app, (cbrecs_nocb e0 N0). cbn [app]. rewrite B1.
+    apply IH; auto. rewrite app_assoc. exact R1.
+  - (* the released loop *)
+    destruct (loop_ok s tr m (hint bs) I R Cu) as (C1 & (m1 & B1 & R1)).
+    destruct (run_from s (loop_steps s (hint bs))) as [s1 e1]. cbn [fst snd] in *.
+    rewrite B1. apply IH; auto.
+  - (* wait, then Stop() *)
+    rewrite run_from_app in *. destruct (wait_ok s tr m 0 I R Srt) as (A1 & A2 & A3 & A4).
+    pose proof (inv_run_from (wait_steps s 0) s tr I) as Iw.
+    destruct (run_from s (wait_steps s 0)) as [s1 e1]. cbn [fst snd] in *.
+    assert (T : forall xs, xs = [] \/ xs = [SStop; SClose] ->
+                cur (fst (run_from s1 xs)) = cur s1 /\
+                Rel (fst (run_from s1 xs)) ((tr ++ e1) ++ snd (run_from s1 xs)) m /\
+                nocb (snd (run_from s1 xs)) /\ queued_of (snd (run_from s1 xs)) = []).
+    { intros xs [->| ->].
+      - cbn [run_from fst snd]. rewrite app_nil_r.
+        split; [reflexivity|]. split; [exact A2|]. split; [intros j c a []|reflexivity].
+      - cbn [run_from].
+        destruct (life_step_ok s1 _ m SStop (or_intror (or_intror (or_intror eq_refl))) Iw A2) as (C2 & R2 & N2 & _).
+        pose proof (inv_step s1 _ SStop Iw) as I2.
+        assert (Q2 : queued_of (snd (step s1 SStop)) = []) by reflexivity.
+        destruct (step s1 SStop) as [s2 e2]. cbn [fst snd] in *.
+        destruct (life_step_ok s2 _ m SClose (or_intror (or_introl eq_refl)) I2 R2) as (C3 & R3 & N3 & _).
+        assert (Q3 : queued_of (snd (step s2 SClose)) = []).
+        { cbn [step]. unfold svc_close. destruct (life_of s2); reflexivity. }
+        destruct (step s2 SClose) as [s3 e3]. cbn [fst snd] in *. rewrite app_nil_r.
+        split; [congruence|]. split; [rewrite app_assoc; exact R3|].
+        split; [apply nocb_app; assumption|]. rewrite queued_of_app, Q2, Q3. reflexivity. }
+    specialize (T (match life_of s with LUp => [SStop; SClose] | _ => [] end)).
+    destruct T as (T1 & T2 & T3 & T4); [destruct (life_of s); auto|].
+    destruct (run_from s1 (match life_of s with LUp => [SStop; SClose] | _ => [] end)) as [s2 e2].
+    cbn [fst snd] in *.
+    rewrite (cbrecs_nocb (e1 ++ e2) (nocb_app _ _ A3 T3)). cbn [m_cbs].
+    rewrite queued_of_app, T4, app_nil_r, A4. cbn [andb].
     apply IH; auto.
+    + rewrite app_assoc. exact T2.
+    + congruence.
 Qed.
 
-Lemma monitor_accepts_model ops : monitor_from [] ops (run ops) = true.
-Proof. apply monitor_exec; [exact inv_init | exact rel_init | reflexivity | exact Logic.I]. Qed.
+Lemma inv_start ops : Inv (start_state ops) (start_trace ops).
+Proof. unfold start_state, start_trace. apply (inv_run_from (pre_steps ops) init [] inv_init). Qed.
+
+Lemma monitor_accepts_model ops bs : monitor_from [] ops (run ops bs) = true.
+Proof.
+  unfold run. apply monitor_exec.
+  - apply inv_start.
+  - unfold start_state, start_trace, pre_steps. destruct (is_svc ops); cbn; [exact rel_init|].
+    split; [exact Logic.I|]. split; [reflexivity|]. intro k. exact Logic.I.
+  - unfold start_state, pre_steps. destruct (is_svc ops); reflexivity.
+  - unfold start_state, pre_steps. destruct (is_svc ops); exact Logic.I.
+Qed.
 
 (* ---- what the monitor's logical clauses stand for, on traces of arbitrary step lists ---- *)
 (* clause [negb (m_cancelled i)] of m_cb: a callback is never preceded by a cancel of its
@@ -2147,6 +2539,7 @@ Qed.
 Lemma occupancy_begin s k : occupancy (fst (begin_at s k)) <= occupancy s.
 Proof.
   unfold begin_at, occupancy. destruct (cur s); [cbn [fst]; lia|].
+  destruct (drains (life_of s)); cbn [negb]; [|cbn [fst]; lia].
   destruct (zmem k (queue s)) eqn:M; [|cbn [fst]; lia].
   destruct (length_remove_first_in _ _ M) as [A B].
   destruct (aget k (objs s)) as [t|]; [destruct (t_canceled t)|];
@@ -2155,19 +2548,21 @@ Qed.
 
 Lemma occupancy_step s x : occupancy s <= qcap -> occupancy (fst (step s x)) <= qcap.
 Proof.
-  intro H. destruct x as [d rep a p|k| |k| | |dt|k|k| ]; cbn [step].
+  intro H. destruct x as [d rep a p|k| |k| | |dt|k|k| | | | ]; cbn [step].
   - exact H.
   - unfold occupancy in *. destruct (queue_cancel s k) as [-> ->]. exact H.
   - exact H.
   - pose proof (occupancy_begin s k). lia.
   - destruct (queue s) as [|k q] eqn:Q; [exact H|]. pose proof (occupancy_begin s k). lia.
   - unfold cb_step. destruct (cur s) as [[k acts]|]; [|exact H]. unfold occupancy in *.
-    destruct acts as [|[|j|d rep a p|] r].
+    destruct acts as [|[|j|d rep a p| |] r].
     + destruct (queue_ret s k false) as [-> ->]. exact H.
     + destruct (queue_cancel (with_cur s (Some (k, r))) k) as [-> ->]. exact H.
     + destruct (queue_cancel (with_cur s (Some (k, r))) j) as [-> ->]. exact H.
     + exact H.
     + destruct (queue_ret s k true) as [-> ->]. exact H.
+    + rewrite svc_stop_eq. unfold mgr_stop, svc_close. cbn [fst with_running with_cur life_of].
+      destruct (life_of s); exact H.
   - exact H.
   - unfold fire_check. destruct (aget k (objs s)) as [t|]; [|exact H].
     destruct (t_tok t); try exact H. destruct (_ <=? _); [|exact H].
@@ -2176,7 +2571,10 @@ Proof.
     destruct (t_tok t); try exact H.
     destruct (Z.ltb_spec (Z.of_nat (length (queue s) - recvd s)) qcap) as [L|L]; [|exact H].
     unfold occupancy. cbn [fst put with_objs with_queue queue recvd]. rewrite app_length. cbn [length]. lia.
-  - unfold recv, occupancy in *. destruct (_ <? _)%nat; cbn [fst queue recvd]; lia.
+  - unfold recv, occupancy in *. destruct (_ && _); cbn [fst queue recvd]; lia.
+  - unfold svc_start. destruct (life_of s); exact H.
+  - unfold svc_close. destruct (life_of s); exact H.
+  - unfold loop_end. destruct (life_of s); destruct (cur s); exact H.
 Qed.
 
 Lemma occupancy_run_from xs : forall s, occupancy s <= qcap -> occupancy (fst (run_from s xs)) <= qcap.
@@ -2192,13 +2590,14 @@ Proof. apply occupancy_run_from. unfold occupancy, qcap. cbn. lia. Qed.
 (* an AfterFunc goroutine blocked on the full channel delivers once the owner receives *)
 Lemma blocked_send_delivers xs k t :
   aget k (objs (final xs)) = Some t -> t_tok t = Firing ->
+  drains (life_of (final xs)) = true ->
   (recvd (final xs) < length (queue (final xs)))%nat ->
   trace (xs ++ [SRecv; SFireSend k]) = trace xs ++ [EQueued k].
 Proof.
-  intros E Q L. rewrite trace_app. pose proof (channel_bounded xs) as B. unfold occupancy in B.
-  cbn [run_from step]. unfold recv.
+  intros E Q Dr L. rewrite trace_app. pose proof (channel_bounded xs) as B. unfold occupancy in B.
+  cbn [run_from step]. unfold recv. rewrite Dr. cbn [andb].
   destruct (Nat.ltb_spec (recvd (final xs)) (length (queue (final xs)))) as [_|X]; [|lia].
-  set (s1 := mkS _ _ _ _ _ _ _).
+  set (s1 := mkS _ _ _ _ _ _ _ _).
   rewrite (fire_send_ok s1 k t) by (cbn [s1 objs queue recvd]; auto; lia). reflexivity.
 Qed.
 
@@ -2209,4 +2608,503 @@ Proof.
   unfold occupancy, fire_send. intro H. destruct (aget k (objs s)) as [t|]; [|reflexivity].
   destruct (t_tok t); try reflexivity.
   destruct (Z.ltb_spec (Z.of_nat (length (queue s) - recvd s)) qcap); [lia | reflexivity].
+Qed.
+
+(* ====================================================================================
+   The owner's life cycle: created, started, told to stop, ended.  Callbacks only between
+   the start and the end of the loop goroutine, nothing after its end; expiries that happen
+   before Start() wait in the queue and are run after it.
+   ==================================================================================== *)
+
+(* what one step does to the life cycle, and what it emits about it *)
+Definition life_quiet (e : list ev) : Prop :=
+  count_ev is_start e = 0 /\ count_ev is_close e = 0 /\ count_ev is_end e = 0.
+
+Lemma life_quiet_nil : life_quiet [].
+Proof. repeat split. Qed.
+
+Lemma life_quiet_begin s k : life_quiet (snd (begin_at s k)).
+Proof.
+  unfold begin_at. destruct (cur s); [apply life_quiet_nil|].
+  destruct (drains (life_of s)); cbn [negb]; [|apply life_quiet_nil].
+  destruct (zmem k (queue s)); [|apply life_quiet_nil].
+  destruct (aget k (objs s)) as [t|]; [destruct (t_canceled t)|]; repeat split.
+Qed.
+
+Lemma life_quiet_ret s k p : life_quiet (snd (ret s k p)).
+Proof.
+  unfold ret. destruct (aget k (objs s)) as [t|]; [|repeat split].
+  destruct (t_canceled t); [|destruct (0 <? t_period t)]; repeat split.
+Qed.
+
+Lemma life_begin s k : life_of (fst (begin_at s k)) = life_of s.
+Proof.
+  unfold begin_at. destruct (cur s); [reflexivity|].
+  destruct (drains (life_of s)); cbn [negb]; [|reflexivity]. destruct (zmem k (queue s)); [|reflexivity].
+  destruct (aget k (objs s)) as [t|]; [destruct (t_canceled t)|]; reflexivity.
+Qed.
+
+Lemma life_ret s k p : life_of (fst (ret s k p)) = life_of s.
+Proof.
+  unfold ret. destruct (aget k (objs s)) as [t|]; [|reflexivity].
+  destruct (t_canceled t); [|destruct (0 <? t_period t)]; reflexivity.
+Qed.
+
+Lemma life_cancel s k : life_of (fst (cancel s k)) = life_of s.
+Proof. unfold cancel. cbn [fst]. destruct (aget k (objs s)) as [t|]; [destruct (t_reg t)|]; reflexivity. Qed.
+
+Lemma cur_begin_some s k :
+  cur (fst (begin_at s k)) <> None -> cur s <> None \/ drains (life_of s) = true.
+Proof.
+  unfold begin_at. destruct (cur s) eqn:Cu; [intros _; left; discriminate|].
+  destruct (drains (life_of s)); cbn [negb]; [intros _; right; reflexivity|].
+  cbn [fst]. intro H. exfalso. apply H. exact Cu.
+Qed.
+
+Inductive life_move (s s' : st) (e : list ev) : Prop :=
+| lm_same : life_of s' = life_of s -> life_quiet e -> life_move s s' e
+| lm_start : life_of s = LNew -> life_of s' = LUp -> e = [EStart] -> life_move s s' e
+| lm_close : life_of s = LUp -> life_of s' = LDown -> e = [EClose] \/ e = [EStop; EClose] -> life_move s s' e
+| lm_end : life_of s = LDown -> cur s = None -> cur s' = None -> life_of s' = LEnd -> e = [ELoopEnd] ->
+           life_move s s' e.
+
+Lemma life_step s x :
+  life_move s (fst (step s x)) (snd (step s x)) /\
+  (cur (fst (step s x)) <> None -> cur s <> None \/ drains (life_of s) = true).
+Proof.
+  destruct x as [d rep a p|k| |k| | |dt|k|k| | | | ]; cbn [step].
+  - split; [apply lm_same; [reflexivity | repeat split]|]. cbn. auto.
+  - split; [apply lm_same; [apply life_cancel | repeat split]|]. rewrite cur_cancel. auto.
+  - split; [apply lm_same; [reflexivity | repeat split]|]. cbn. auto.
+  - split; [apply lm_same; [apply life_begin | apply life_quiet_begin] | apply cur_begin_some].
+  - destruct (queue s) as [|k q]; [split; [apply lm_same; [reflexivity | apply life_quiet_nil] | cbn; auto]|].
+    split; [apply lm_same; [apply life_begin | apply life_quiet_begin] | apply cur_begin_some].
+  - unfold cb_step. destruct (cur s) as [[k acts]|] eqn:Cu;
+      [|split; [apply lm_same; [reflexivity | apply life_quiet_nil] | cbn; auto]].
+    destruct acts as [|[|j|d rep a p| |] r].
+    + split; [apply lm_same; [apply life_ret | apply life_quiet_ret] | intros _; left; discriminate].
+    + split; [apply lm_same; [rewrite life_cancel; reflexivity | repeat split] | intros _; left; discriminate].
+    + split; [apply lm_same; [rewrite life_cancel; reflexivity | repeat split] | intros _; left; discriminate].
+    + split; [apply lm_same; [reflexivity | repeat split] | intros _; left; discriminate].
+    + split; [apply lm_same; [apply life_ret | apply life_quiet_ret] | intros _; left; discriminate].
+    + split; [|intros _; left; discriminate]. rewrite svc_stop_eq. unfold mgr_stop, svc_close.
+      cbn [fst snd with_running with_cur life_of].
+      destruct (life_of s) eqn:Lf; cbn [fst snd app with_life life_of].
+      * apply lm_same; [reflexivity | repeat split].
+      * apply lm_close; [exact Lf | reflexivity | right; reflexivity].
+      * apply lm_same; [reflexivity | repeat split].
+      * apply lm_same; [reflexivity | repeat split].
+  - split; [apply lm_same; [reflexivity | repeat split]|]. cbn. auto.
+  - split; [|destruct (fc_facts s k) as (_ & F & _); rewrite F; auto].
+    apply lm_same; [|destruct (fc_facts s k) as (F & _); rewrite F; apply life_quiet_nil].
+    unfold fire_check. destruct (aget k (objs s)) as [t|]; [|reflexivity].
+    destruct (t_tok t); try reflexivity. destruct (_ <=? _); [|reflexivity].
+    destruct (t_canceled t); [|destruct (running s)]; reflexivity.
+  - split; [|destruct (fs_facts s k) as (_ & F & _); rewrite F; auto].
+    apply lm_same; [|destruct (fs_facts s k) as ([F|F] & _); rewrite F; repeat split].
+    unfold fire_send. destruct (aget k (objs s)) as [t|]; [|reflexivity].
+    destruct (t_tok t); try reflexivity. destruct (_ <? _); reflexivity.
+  - split; [|destruct (recv_facts s) as (_ & _ & _ & F); rewrite F; auto].
+    apply lm_same; [|destruct (recv_facts s) as (F & _); rewrite F; apply life_quiet_nil].
+    unfold recv. destruct (_ && _); reflexivity.
+  - unfold svc_start. destruct (life_of s) eqn:Lf; cbn [fst snd];
+      (split; [|cbn; auto]);
+      [apply lm_start; [exact Lf | reflexivity | reflexivity] | | | ];
+      apply lm_same; [reflexivity | apply life_quiet_nil | reflexivity | apply life_quiet_nil | reflexivity | apply life_quiet_nil].
+  - unfold svc_close. destruct (life_of s) eqn:Lf; cbn [fst snd];
+      (split; [|cbn; auto]);
+      [ | apply lm_close; [exact Lf | reflexivity | left; reflexivity] | | ];
+      apply lm_same; [reflexivity | apply life_quiet_nil | reflexivity | apply life_quiet_nil | reflexivity | apply life_quiet_nil].
+  - unfold loop_end. destruct (life_of s) eqn:Lf; destruct (cur s) eqn:Cu; cbn [fst snd];
+      (split; [|cbn; rewrite ?Cu; auto]);
+      try (apply lm_same; [reflexivity | apply life_quiet_nil]).
+    apply lm_end; [exact Lf | exact Cu | exact Cu | reflexivity | reflexivity].
+Qed.
+
+(* the life-cycle invariant: the state's [life] is the number of start / close / end events so
+   far, and a callback is in progress only on a live loop *)
+Definition LI (s : st) (tr : list ev) : Prop :=
+  life_events (life_of s) = (count_ev is_start tr, count_ev is_close tr, count_ev is_end tr) /\
+  (cur s <> None -> drains (life_of s) = true).
+
+Lemma count_ev_app f a b : count_ev f (a ++ b) = count_ev f a + count_ev f b.
+Proof. induction a as [|x r IH]; cbn [app count_ev]; [lia|]. rewrite IH. lia. Qed.
+
+Lemma count_ev_nonneg f tr : 0 <= count_ev f tr.
+Proof. induction tr as [|x r IH]; cbn [count_ev]; [lia|]. destruct (f x); lia. Qed.
+
+Lemma count_ev_zero f tr x : count_ev f tr = 0 -> In x tr -> f x = false.
+Proof.
+  induction tr as [|y r IH]; [intros _ []|]. cbn [count_ev]. intros Z0 [->|I].
+  - pose proof (count_ev_nonneg f r). destruct (f x); [lia | reflexivity].
+  - apply IH; [|exact I]. pose proof (count_ev_nonneg f r). destruct (f y); lia.
+Qed.
+
+Lemma count_ev_pos f tr : 0 < count_ev f tr -> exists x, In x tr /\ f x = true.
+Proof.
+  induction tr as [|y r IH]; cbn [count_ev]; [lia|]. intro P. destruct (f y) eqn:F.
+  - exists y. split; [left; reflexivity | exact F].
+  - destruct (IH ltac:(lia)) as (x & I & Fx). exists x. split; [right; exact I | exact Fx].
+Qed.
+
+Lemma li_init : LI init [].
+Proof. split; [reflexivity|]. cbn. intro H. contradiction. Qed.
+
+Lemma li_step s tr x : LI s tr -> LI (fst (step s x)) (tr ++ snd (step s x)).
+Proof.
+  intros [A C]. destruct (life_step s x) as [M Cu'].
+  destruct (step s x) as [s' e]. cbn [fst snd] in *. split.
+  - rewrite !count_ev_app.
+    destruct M as [L (Q1 & Q2 & Q3)|L L' ->|L L' [->| ->]|L Cn Cn' L' ->].
+    + rewrite L, A, Q1, Q2, Q3. repeat f_equal; lia.
+    + rewrite L in A. rewrite L'. cbn in *. inv A. repeat f_equal; lia.
+    + rewrite L in A. rewrite L'. cbn in *. inv A. repeat f_equal; lia.
+    + rewrite L in A. rewrite L'. cbn in *. inv A. repeat f_equal; lia.
+    + rewrite L in A. rewrite L'. cbn in *. inv A. repeat f_equal; lia.
+  - intro N. specialize (Cu' N).
+    assert (D : drains (life_of s) = true) by (destruct Cu' as [X|X]; [exact (C X) | exact X]).
+    destruct M as [L _|L L' _|L L' _|L Cn Cn' L' _].
+    + rewrite L. exact D.
+    + rewrite L'. reflexivity.
+    + rewrite L'. reflexivity.
+    + contradiction.
+Qed.
+
+Lemma li_run_from xs : forall s tr, LI s tr -> LI (fst (run_from s xs)) (tr ++ snd (run_from s xs)).
+Proof.
+  induction xs as [|x r IH]; intros s tr L; cbn [run_from].
+  - cbn [fst snd]. rewrite app_nil_r. exact L.
+  - pose proof (li_step s tr x L) as L1. destruct (step s x) as [s1 e1]. cbn [fst snd] in L1.
+    specialize (IH s1 _ L1). destruct (run_from s1 r) as [s2 e2]. cbn [fst snd] in *.
+    rewrite app_assoc. exact IH.
+Qed.
+
+Lemma li_reachable xs : LI (final xs) (trace xs).
+Proof. apply (li_run_from xs init [] li_init). Qed.
+
+(* Start, Stop and the loop's end happen at most once each, in this order *)
+Lemma life_cycle_once xs :
+  life_events (life_of (final xs)) =
+  (count_ev is_start (trace xs), count_ev is_close (trace xs), count_ev is_end (trace xs)).
+Proof. apply li_reachable. Qed.
+
+Lemma li_started s tr : LI s tr -> drains (life_of s) = true -> In EStart tr /\ ~ In ELoopEnd tr.
+Proof.
+  intros [A _] D. split.
+  - destruct (count_ev_pos is_start tr) as (x & I & F).
+    + destruct (life_of s); cbn in *; try discriminate; inv A; lia.
+    + destruct x; try discriminate. exact I.
+  - intro I. assert (Z0 : count_ev is_end tr = 0) by (destruct (life_of s); cbn in *; try discriminate; inv A; lia).
+    pose proof (count_ev_zero is_end tr ELoopEnd Z0 I). discriminate.
+Qed.
+
+Lemma li_ended s tr : LI s tr -> In ELoopEnd tr -> life_of s = LEnd /\ cur s = None.
+Proof.
+  intros [A C] I.
+  assert (L : life_of s = LEnd).
+  { destruct (life_of s) eqn:Lf; [| | |reflexivity]; exfalso; cbn in A; inv A;
+      match goal with H : 0 = count_ev is_end tr |- _ =>
+        pose proof (count_ev_zero is_end tr ELoopEnd (eq_sym H) I); discriminate end. }
+  split; [exact L|]. destruct (cur s) eqn:Cu; [|reflexivity]. exfalso.
+  assert (X : drains (life_of s) = true) by (apply C; discriminate). rewrite L in X. discriminate.
+Qed.
+
+Lemma begin_events s k :
+  snd (begin_at s k) = [] \/ exists c a, snd (begin_at s k) = [ECb k c a].
+Proof.
+  unfold begin_at. destruct (cur s); [left; reflexivity|].
+  destruct (drains (life_of s)); cbn [negb]; [|left; reflexivity].
+  destruct (zmem k (queue s)); [|left; reflexivity].
+  destruct (aget k (objs s)) as [t|]; [|left; reflexivity].
+  destruct (t_canceled t); [left; reflexivity | right; eexists; eexists; reflexivity].
+Qed.
+
+(* without a loop goroutine (not started yet / ended) a step emits only quiet events *)
+Lemma idle_quiet s x :
+  drains (life_of s) = false -> cur s = None -> life_of s = LEnd \/ x <> SStart ->
+  forall y, In y (snd (step s x)) -> quiet_event y.
+Proof.
+  intros D Cu Hx.
+  assert (B : forall k, snd (begin_at s k) = []).
+  { intro k. unfold begin_at. rewrite Cu, D. reflexivity. }
+  destruct x as [d rep a p|k| |k| | |dt|k|k| | | | ]; cbn [step]; intros y Hy.
+  - cbn in Hy. destruct Hy as [<-|[]]. exact Logic.I.
+  - cbn in Hy. destruct Hy as [<-|[]]. exact Logic.I.
+  - cbn in Hy. destruct Hy as [<-|[]]. exact Logic.I.
+  - rewrite B in Hy. destruct Hy.
+  - destruct (queue s); [destruct Hy | rewrite B in Hy; destruct Hy].
+  - unfold cb_step in Hy. rewrite Cu in Hy. destruct Hy.
+  - destruct Hy.
+  - destruct (fc_facts s k) as (F & _). rewrite F in Hy. destruct Hy.
+  - destruct (fs_facts s k) as ([F|F] & _); rewrite F in Hy; [destruct Hy|].
+    destruct Hy as [<-|[]]. exact Logic.I.
+  - destruct (recv_facts s) as (F & _). rewrite F in Hy. destruct Hy.
+  - destruct Hx as [L|N]; [|contradiction]. unfold svc_start in Hy. rewrite L in Hy. destruct Hy.
+  - unfold svc_close in Hy. destruct (life_of s); try discriminate; destruct Hy.
+  - unfold loop_end in Hy. destruct (life_of s); try discriminate; destruct Hy.
+Qed.
+
+Definition Within (tr : list ev) : Prop := callbacks_within_owner_life tr /\ nothing_after_loop_end tr.
+
+Lemma within_nil : Within [].
+Proof.
+  split.
+  - intros k c a t1 t2 E. destruct t1; discriminate.
+  - intros t1 t2 E. destruct t1; discriminate.
+Qed.
+
+Lemma within_step s tr x : LI s tr -> Within tr -> Within (tr ++ snd (step s x)).
+Proof.
+  intros L [W1 W2]. split.
+  - intros k c a t1 t2 E. apply app_split in E. destruct E as [[m [E1 E2]]|[e1 [E1 E2]]].
+    + eapply W1; eauto.
+    + assert (Hin : In (ECb k c a) (snd (step s x))) by (rewrite E1; apply in_or_app; right; left; reflexivity).
+      destruct (cb_only_from_do s x k c a Hin) as (Hx & _ & _ & D).
+      assert (S1 : snd (step s x) = [ECb k c a]).
+      { assert (Bk : snd (step s x) = snd (begin_at s k)).
+        { destruct Hx as [->|[-> Hq]]; cbn [step]; [reflexivity|].
+          destruct (queue s) as [|j q]; [discriminate|]. cbn in Hq. inv Hq. reflexivity. }
+        rewrite Bk in *. destruct (begin_events s k) as [Z0|(c' & a' & Z1)].
+        - rewrite Z0 in Hin. destruct Hin.
+        - rewrite Z1 in *. destruct Hin as [X|[]]. inv X. reflexivity. }
+      rewrite S1 in E1. symmetry in E1. apply split1 in E1. destruct E1 as (-> & _ & _).
+      subst t1. rewrite app_nil_r. apply (li_started _ _ L D).
+  - intros t1 t2 E y Hy. apply app_split in E. destruct E as [[m [E1 E2]]|[e1 [E1 E2]]].
+    + subst t2. apply in_app_or in Hy. destruct Hy as [Hy|Hy]; [eapply W2; eauto|].
+      assert (I : In ELoopEnd tr) by (rewrite E1; apply in_or_app; right; left; reflexivity).
+      destruct (li_ended _ _ L I) as [Le Cu].
+      apply (idle_quiet s x); auto. rewrite Le. reflexivity.
+    + destruct (life_step s x) as [M _].
+      assert (Hin : In ELoopEnd (snd (step s x))) by (rewrite E1; apply in_or_app; right; left; reflexivity).
+      destruct M as [_ (_ & _ & Q3)|_ _ Ee|_ _ [Ee|Ee]|_ _ _ _ Ee].
+      * pose proof (count_ev_zero is_end _ ELoopEnd Q3 Hin). discriminate.
+      * rewrite Ee in Hin. cbn in Hin. intuition discriminate.
+      * rewrite Ee in Hin. cbn in Hin. intuition discriminate.
+      * rewrite Ee in Hin. cbn in Hin. intuition discriminate.
+      * rewrite Ee in E1. symmetry in E1. apply split1 in E1. destruct E1 as (_ & _ & ->). destruct Hy.
+Qed.
+
+Lemma within_run_from xs : forall s tr, LI s tr -> Within tr -> Within (tr ++ snd (run_from s xs)).
+Proof.
+  induction xs as [|x r IH]; intros s tr L W; cbn [run_from].
+  - cbn [snd]. rewrite app_nil_r. exact W.
+  - pose proof (li_step s tr x L) as L1. pose proof (within_step s tr x L W) as W1.
+    destruct (step s x) as [s1 e1]. cbn [fst snd] in *.
+    specialize (IH s1 _ L1 W1). destruct (run_from s1 r) as [s2 e2]. cbn [snd] in *.
+    rewrite app_assoc. exact IH.
+Qed.
+
+Lemma callbacks_within_all xs : callbacks_within_owner_life (trace xs).
+Proof. apply (within_run_from xs init [] li_init within_nil). Qed.
+
+Lemma nothing_after_loop_end_all xs : nothing_after_loop_end (trace xs).
+Proof. apply (within_run_from xs init [] li_init within_nil). Qed.
+
+(* ---- before Start(): expiries wait in the queue ---- *)
+Lemma queue_step_new s x :
+  life_of s = LNew -> cur s = None ->
+  queue (fst (step s x)) = queue s ++ queued_of (snd (step s x)).
+Proof.
+  intros L Cu.
+  assert (B : forall k, begin_at s k = (s, [])).
+  { intro k. unfold begin_at. rewrite Cu, L. reflexivity. }
+  destruct x as [d rep a p|k| |k| | |dt|k|k| | | | ]; cbn [step].
+  - cbn. rewrite app_nil_r. reflexivity.
+  - destruct (queue_cancel s k) as [-> _]. cbn. rewrite app_nil_r. reflexivity.
+  - cbn. rewrite app_nil_r. reflexivity.
+  - rewrite B. cbn. rewrite app_nil_r. reflexivity.
+  - destruct (queue s) as [|k q] eqn:Q; [cbn; rewrite Q; reflexivity|]. rewrite B. cbn. rewrite app_nil_r. exact Q.
+  - unfold cb_step. rewrite Cu. cbn. rewrite app_nil_r. reflexivity.
+  - cbn. rewrite app_nil_r. reflexivity.
+  - destruct (fc_facts s k) as (F & _). rewrite F. cbn [queued_of]. rewrite app_nil_r.
+    unfold fire_check. destruct (aget k (objs s)) as [t|]; [|reflexivity].
+    destruct (t_tok t); try reflexivity. destruct (_ <=? _); [|reflexivity].
+    destruct (t_canceled t); [|destruct (running s)]; reflexivity.
+  - unfold fire_send. destruct (aget k (objs s)) as [t|]; [|cbn; rewrite app_nil_r; reflexivity].
+    destruct (t_tok t); try (cbn; rewrite app_nil_r; reflexivity).
+    destruct (_ <? _); cbn; [reflexivity | rewrite app_nil_r; reflexivity].
+  - destruct (recv_facts s) as (F & _). rewrite F. cbn [queued_of]. rewrite app_nil_r.
+    unfold recv. destruct (_ && _); reflexivity.
+  - unfold svc_start. rewrite L. cbn. rewrite app_nil_r. reflexivity.
+  - unfold svc_close. rewrite L. cbn. rewrite app_nil_r. reflexivity.
+  - unfold loop_end. rewrite L. cbn. rewrite app_nil_r. reflexivity.
+Qed.
+
+Lemma life_new_back s x : life_of (fst (step s x)) = LNew -> life_of s = LNew.
+Proof.
+  intro L. destruct (life_step s x) as [M _].
+  destruct M as [E _|_ E _|_ E _|_ _ _ E _]; congruence.
+Qed.
+
+Lemma prestart_run xs : forall s tr,
+  LI s tr -> life_of (fst (run_from s xs)) = LNew ->
+  life_of s = LNew /\ queue (fst (run_from s xs)) = queue s ++ queued_of (snd (run_from s xs)).
+Proof.
+  induction xs as [|x r IH]; intros s tr L Hn; cbn [run_from] in *.
+  - cbn [fst snd queued_of] in *. rewrite app_nil_r. auto.
+  - pose proof (li_step s tr x L) as L1. pose proof (queue_step_new s x) as Q.
+    pose proof (life_new_back s x) as Bk.
+    destruct (step s x) as [s1 e1]. cbn [fst snd] in *.
+    specialize (IH s1 _ L1). destruct (run_from s1 r) as [s2 e2]. cbn [fst snd] in *.
+    destruct (IH Hn) as [N1 Q1]. specialize (Bk N1). split; [exact Bk|].
+    assert (Cu : cur s = None).
+    { destruct (cur s) eqn:C; [|reflexivity]. exfalso. destruct L as [_ D].
+      assert (X : drains (life_of s) = true) by (apply D; rewrite C; discriminate).
+      rewrite Bk in X. discriminate. }
+    rewrite Q1, (Q Bk Cu), queued_of_app, app_assoc. reflexivity.
+Qed.
+
+(* every expiry that happened before Start() is still in the queue, in order of arrival *)
+Lemma prestart_expiries_wait xs :
+  life_of (final xs) = LNew -> queue (final xs) = queued_of (trace xs) /\ cur (final xs) = None.
+Proof.
+  intro L. destruct (prestart_run xs init [] li_init L) as [_ Q]. split; [exact Q|].
+  destruct (li_reachable xs) as [_ D]. destruct (cur (final xs)) eqn:C; [|reflexivity]. exfalso.
+  assert (X : drains (life_of (final xs)) = true) by (apply D; discriminate).
+  rewrite L in X. discriminate.
+Qed.
+
+Lemma queued_of_In k e : In k (queued_of e) <-> In (EQueued k) e.
+Proof.
+  induction e as [|x r IH]; [split; intros []|]. destruct x; cbn [queued_of]; cbn [In]; rewrite IH;
+    try (split; [intro H; right; exact H | intros [H|H]; [discriminate | exact H]]).
+  split; [intros [->|H]; auto | intros [H|H]; [inv H; auto | auto]].
+Qed.
+
+(* ... and Start() followed by the loop's Do runs its callback *)
+Lemma prestart_runs_after_start xs k t :
+  life_of (final xs) = LNew -> In (EQueued k) (trace xs) ->
+  aget k (objs (final xs)) = Some t -> t_canceled t = false ->
+  trace (xs ++ [SStart; SBegin k]) = trace xs ++ [EStart; ECb k (clock (final xs)) (t_args t)].
+Proof.
+  intros L Iq E Ca. destruct (prestart_expiries_wait xs L) as [Q Cu].
+  rewrite trace_app. cbn [run_from step]. unfold svc_start. rewrite L.
+  assert (M : zmem k (queue (final xs)) = true).
+  { apply zmem_In. rewrite Q. apply queued_of_In. exact Iq. }
+  rewrite (begin_ok (with_life (final xs) LUp) k t); auto.
+Qed.
+
+Lemma length_remove_first_le k q : (length (remove_first k q) <= length q)%nat.
+Proof.
+  induction q as [|y r IH]; cbn [remove_first length]; [lia|]. destruct (Z.eqb k y); cbn [length]; lia.
+Qed.
+
+(* a repeating timer whose first expiry happened before Start(): once started it runs, and
+   then again and again *)
+Lemma prestart_repeating xs k d t m :
+  life_of (final xs) = LNew -> In (EQueued k) (trace xs) ->
+  aget k (objs (final xs)) = Some t -> t_canceled t = false -> t_period t = d -> 0 < d ->
+  keeps k (t_prog t) -> running (final xs) = true -> Z.of_nat (length (queue (final xs))) < qcap ->
+  count_cb k (trace (xs ++ [SStart; SBegin k] ++ repeat SCbStep (S (length (t_prog t)))
+                        ++ cycles m k d (length (t_prog t)))) =
+  count_cb k (trace xs) + 1 + Z.of_nat m.
+Proof.
+  intros L Iq E Ca Pe Po Kp Rn Cap.
+  pose proof (prestart_runs_after_start xs k t L Iq E Ca) as T2.
+  destruct (prestart_expiries_wait xs L) as [Q Cu].
+  assert (M : zmem k (queue (final xs)) = true).
+  { apply zmem_In. rewrite Q. apply queued_of_In. exact Iq. }
+  replace (xs ++ [SStart; SBegin k] ++ repeat SCbStep (S (length (t_prog t))) ++ cycles m k d (length (t_prog t)))
+    with ((xs ++ [SStart; SBegin k]) ++ repeat SCbStep (S (length (t_prog t))) ++ cycles m k d (length (t_prog t)))
+    by (rewrite <- app_assoc; reflexivity).
+  rewrite trace_app, count_cb_app, T2, count_cb_app. cbn [count_cb]. rewrite Z.eqb_refl.
+  rewrite run_from_app. cbn [snd]. rewrite count_cb_app.
+  pose proof (inv_reachable (xs ++ [SStart; SBegin k])) as I4.
+  set (s4 := final (xs ++ [SStart; SBegin k])) in *.
+  assert (S4 : s4 = with_cur (put (dequeue (with_life (final xs) LUp) k) k (set_tok InCb t)) (Some (k, t_prog t))).
+  { unfold s4, final. rewrite run_from_app. cbn [fst run_from step]. unfold svc_start.
+    fold (final xs). rewrite L. cbn [fst]. rewrite (begin_ok (with_life (final xs) LUp) k t); auto. }
+  destruct (finish_cycle s4 _ k d (t_prog t) (set_tok InCb t) I4) as (t' & P' & C'); auto;
+    try (rewrite S4; reflexivity).
+  - rewrite S4. cbn [with_cur put with_objs dequeue with_life running]. exact Rn.
+  - rewrite S4. cbn [with_cur put with_objs dequeue with_life queue].
+    pose proof (length_remove_first_le k (queue (final xs))). lia.
+  - rewrite S4. cbn [with_cur put with_objs objs]. apply aget_aset_same.
+  - pose proof (inv_run_from (repeat SCbStep (S (length (t_prog t)))) s4 _ I4) as I5.
+    fold s4. rewrite C', (cycles_count m _ _ k d (t_prog t) t' I5 P'). lia.
+Qed.
+
+(* ---- Mgr.Stop() is final: the flag never comes back, later expiries are kept out ---- *)
+Lemma running_ret s k p : running (fst (ret s k p)) = running s.
+Proof.
+  unfold ret. destruct (aget k (objs s)) as [t|]; [|reflexivity].
+  destruct (t_canceled t); [reflexivity|]. destruct (0 <? t_period t); reflexivity.
+Qed.
+
+Lemma running_cancel s k : running (fst (cancel s k)) = running s.
+Proof. unfold cancel. cbn [fst]. destruct (aget k (objs s)) as [t|]; [destruct (t_reg t)|]; reflexivity. Qed.
+
+Lemma running_svc_stop s : running (fst (svc_stop s)) = false.
+Proof.
+  rewrite svc_stop_eq. unfold mgr_stop, svc_close. cbn [fst with_running life_of].
+  destruct (life_of s); reflexivity.
+Qed.
+
+Lemma stop_step s x :
+  (running s = false -> running (fst (step s x)) = false) /\
+  (In EStop (snd (step s x)) -> running (fst (step s x)) = false).
+Proof.
+  destruct x as [d rep a p|k| |k| | |dt|k|k| | | | ]; cbn [step].
+  - split; [auto | intros [H|[]]; discriminate].
+  - rewrite running_cancel. split; [auto | intros [H|[]]; discriminate].
+  - split; reflexivity.
+  - rewrite running_begin. split; [auto|]. destruct (begin_events s k) as [->|(c & a & ->)]; [intros [] | intros [H|[]]; discriminate].
+  - destruct (queue s) as [|k q]; [split; [auto | intros []]|].
+    rewrite running_begin. split; [auto|]. destruct (begin_events s k) as [->|(c & a & ->)]; [intros [] | intros [H|[]]; discriminate].
+  - unfold cb_step. destruct (cur s) as [[k acts]|]; [|split; [auto | intros []]].
+    assert (R : forall p, (running s = false -> running (fst (ret s k p)) = false) /\
+                          (In EStop (snd (ret s k p)) -> running (fst (ret s k p)) = false)).
+    { intro p. rewrite running_ret. split; [auto|]. intro H. exfalso.
+      unfold ret in H. destruct (aget k (objs s)) as [t|]; [|cbn in H; intuition discriminate].
+      destruct (t_canceled t); [|destruct (0 <? t_period t)]; cbn in H; intuition discriminate. }
+    destruct acts as [|[|j|d rep a p| |] r]; try apply R.
+    + rewrite running_cancel. split; [auto | intros [H|[]]; discriminate].
+    + rewrite running_cancel. split; [auto | intros [H|[]]; discriminate].
+    + split; [auto | intros [H|[]]; discriminate].
+    + rewrite running_svc_stop. split; reflexivity.
+  - split; [auto | intros []].
+  - destruct (fc_facts s k) as (F & _). rewrite F. split; [|intros []].
+    intro R. unfold fire_check. destruct (aget k (objs s)) as [t|]; [|exact R].
+    destruct (t_tok t); try exact R. destruct (_ <=? _); [|exact R].
+    destruct (t_canceled t); [exact R|]. rewrite R. exact R.
+  - split.
+    + intro R. unfold fire_send. destruct (aget k (objs s)) as [t|]; [|exact R].
+      destruct (t_tok t); try exact R. destruct (_ <? _); exact R.
+    + destruct (fs_facts s k) as ([F|F] & _); rewrite F; [intros [] | intros [H|[]]; discriminate].
+  - destruct (recv_facts s) as (F & _). rewrite F. split; [|intros []].
+    intro R. unfold recv. destruct (_ && _); exact R.
+  - unfold svc_start. destruct (life_of s); cbn [fst snd with_life running]; (split; [auto|]);
+      intro H; cbn in H; intuition discriminate.
+  - unfold svc_close. destruct (life_of s); cbn [fst snd with_life running]; (split; [auto|]);
+      intro H; cbn in H; intuition discriminate.
+  - unfold loop_end. destruct (life_of s); destruct (cur s); cbn [fst snd with_life running];
+      (split; [auto|]); intro H; cbn in H; intuition discriminate.
+Qed.
+
+Lemma stop_run_from xs : forall s tr,
+  (In EStop tr -> running s = false) ->
+  In EStop (tr ++ snd (run_from s xs)) -> running (fst (run_from s xs)) = false.
+Proof.
+  induction xs as [|x r IH]; intros s tr H; cbn [run_from].
+  - cbn [fst snd]. rewrite app_nil_r. exact H.
+  - destruct (stop_step s x) as [A B]. destruct (step s x) as [s1 e1]. cbn [fst snd] in *.
+    specialize (IH s1 (tr ++ e1)). destruct (run_from s1 r) as [s2 e2]. cbn [fst snd] in *.
+    rewrite app_assoc. apply IH. intro I. apply in_app_or in I. destruct I as [I|I]; auto.
+Qed.
+
+Lemma stop_is_final xs : running (final xs) = false <-> In EStop (trace xs).
+Proof.
+  split.
+  - intro R. destruct (running_run_from xs init) as [X|X]; [|exact X].
+    unfold final in R. rewrite X in R. discriminate.
+  - intro I. apply (stop_run_from xs init []); [intros [] | exact I].
+Qed.
+
+(* after Mgr.Stop() an expiry of an armed timer never gets as far as the channel *)
+Lemma stopped_drops s k t dl :
+  running s = false -> aget k (objs s) = Some t -> t_tok t = Pending dl -> dl <= clock s ->
+  fire_check s k = (put s k (set_tok Dead t), []).
+Proof.
+  intros R E Q D. unfold fire_check. rewrite E, Q, R.
+  destruct (Z.leb_spec dl (clock s)); [|lia]. destruct (t_canceled t); reflexivity.
 Qed.
